@@ -1132,8 +1132,8 @@ Record Inv (dt : doc) (S : summary) (de : doc) : Prop := mkInv {
   inv_lag : forall t c r ba v, sdelta S t c r = Some ba -> InCell dt t c r v -> v = fst ba;
   (* rows flagged as gone are gone; rows with a pending delta that are gone are flagged *)
   inv_gone : forall t r, pa_get S t r = Some false -> ~ InRow dt t r;
-  inv_there : forall t c r ba, is_defunct t = false -> sdelta S t c r = Some ba -> ~ InRow dt t r ->
-                               pa_get S t r = Some false;
+  inv_there : forall t c r ba, is_defunct t = false -> is_defunct c = false -> sdelta S t c r = Some ba ->
+                               ~ InRow dt t r -> pa_get S t r = Some false;
   inv_wf : wf_doc dt
 }.
 
@@ -1143,7 +1143,7 @@ Proof.
   - symmetry. apply map_cells_id. intros. reflexivity.
   - intros t c r ba v H. discriminate.
   - intros t r H. discriminate.
-  - intros t c r ba _ H. discriminate.
+  - intros t c r ba _ _ H. discriminate.
   - exact Hwf.
 Qed.
 
@@ -1182,7 +1182,7 @@ Proof.
         rewrite Heq. apply InCell_map_cells. exists v. split; [exact Hc|]. unfold ov. rewrite Es. reflexivity.
     + eapply Hlag; eassumption.
   - intros t2 r2 Hpa. rewrite pa_get_add_changes in Hpa. apply Hgone. exact Hpa.
-  - intros t2 c2 r2 ba Hdef Hsd Hnr. rewrite pa_get_add_changes. rewrite sdelta_add_change in Hsd.
+  - intros t2 c2 r2 ba Hdef Hdefc Hsd Hnr. rewrite pa_get_add_changes. rewrite sdelta_add_change in Hsd.
     destruct (str_eqb t t2 && str_eqb c c2 && Z.eqb r r2) eqn:E1.
     + apply andb_true_iff in E1. destruct E1 as [E1 E3]. apply andb_true_iff in E1. destruct E1 as [E1 E2].
       apply str_eqb_eq in E1. apply str_eqb_eq in E2. apply Z.eqb_eq in E3. subst t2 c2 r2.
@@ -1211,9 +1211,8 @@ Proof.
   rewrite upd_col_compose. unfold upd_col. f_equal. apply map_ext. intros [c2 co]. cbn [fst snd].
   destruct (str_eqb c2 c); [|reflexivity]. f_equal. unfold set_cells. cbn [c_type c_cells]. f_equal. rewrite map_map.
   apply map_ext. intros [r v]. cbn [fst snd map]. f_equal.
-  unfold zget_last. cbn [rev map fst snd]. rewrite (aget_app Z.eqb).
-  destruct (aget Z.eqb r (rev (map (fun ch0 : change => (fst ch0, snd (snd ch0))) chs))); [reflexivity|].
-  cbn. destruct (Z.eqb (fst ch) r); reflexivity.
+  unfold zget_last. cbn [rev map fst snd app]. rewrite (aget_app Z.eqb).
+  destruct (aget Z.eqb r (rev _)); reflexivity.
 Qed.
 
 Lemma inv_calc : forall chs dt S de t c,
@@ -1235,9 +1234,1288 @@ Proof.
       destruct (str_eqb t2 t && str_eqb c2 c); reflexivity.
     + intros t2 c2 r2 ba v H1 H2. rewrite Hsd in H1. eapply Hlag; eassumption.
     + intros t2 r2 H1. rewrite pa_get_add_changes in H1. apply Hgone. exact H1.
-    + intros t2 c2 r2 ba Hd H1 H2. rewrite Hsd in H1. rewrite pa_get_add_changes. eapply Hthere; eassumption.
+    + intros t2 c2 r2 ba Hd Hdc H1 H2. rewrite Hsd in H1. rewrite pa_get_add_changes. eapply Hthere; eassumption.
     + exact Hwf.
   - rewrite add_changes_cons, set_changes_cons.
     cbn [sc2] in Hsc. apply andb_true_iff in Hsc. destruct Hsc as [Hsc1 Hsc2].
     apply IH; [|exact Hsc2]. apply inv_calc1; [exact HI|]. cbn [sc2]. rewrite Hsc1. reflexivity.
 Qed.
+
+(* --- EFlushCol *)
+Lemma simplify_update_some : forall t rs c vs act,
+  simplify_update t rs c vs = Some act -> length vs = length rs ->
+  bulk_of act = BulkUpdateRecord t rs [(c, vs)] /\ action_ok act = true /\ rs <> [].
+Proof.
+  intros t rs c vs act H Hlen. unfold simplify_update in H.
+  assert (Hok : action_ok (BulkUpdateRecord t rs [(c, vs)]) = true).
+  { unfold action_ok, colvals_ok. cbn. rewrite Hlen. rewrite Nat.eqb_refl. reflexivity. }
+  destruct rs as [|r [|r2 rs]].
+  - discriminate.
+  - destruct vs as [|v [|v2 vs]]; try discriminate. inversion H; subst. split; [reflexivity|].
+    split; [|discriminate]. unfold action_ok. cbn. reflexivity.
+  - inversion H; subst. split; [reflexivity|]. split; [exact Hok|discriminate].
+Qed.
+
+Lemma simplify_update_none : forall t rs c vs, simplify_update t rs c vs = None -> rs = [].
+Proof.
+  intros t rs c vs H. unfold simplify_update in H. destruct rs as [|r [|r2 rs]]; [reflexivity| |discriminate].
+  destruct vs as [|v [|v2 vs]]; discriminate.
+Qed.
+
+Lemma root_name_alive : forall n, is_defunct n = false -> root_name n = n.
+Proof.
+  intros n H. destruct n as [|x n]; [reflexivity|]. unfold is_defunct in H. unfold root_name.
+  destruct x; try reflexivity. destruct p; try reflexivity. destruct p; try reflexivity.
+  destruct p; try reflexivity. destruct p; try reflexivity. destruct p; try reflexivity. destruct p; try reflexivity.
+  discriminate.
+Qed.
+
+Section Flush.
+  Variable td : str -> V.
+
+  Lemma tds_apply_all_app : forall l1 l2 d,
+    tds_apply_all td (l1 ++ l2) d =
+    match tds_apply_all td l1 d with Ok d' => tds_apply_all td l2 d' | Err e => Err e end.
+  Proof.
+    induction l1 as [|a l1 IH]; intros l2 d; cbn; [reflexivity|].
+    destruct (tds_apply td a d); [apply IH|reflexivity].
+  Qed.
+
+  Lemma inv_pop_column : forall dt S de t c oa S',
+    Inv dt S de -> pop_column S t c = (oa, S') ->
+    match oa with
+    | None => Inv dt S' de
+    | Some act => exists dt', tds_apply td act dt = Ok dt' /\ Inv dt' S' de
+    end.
+  Proof.
+    intros dt S de t c oa S' HI Hpop. unfold pop_column in Hpop.
+    destruct (aget str_eqb t (sm_tables S)) as [tdl|] eqn:Et; [|inversion Hpop; subst; exact HI].
+    destruct (aget str_eqb c (td_deltas tdl)) as [dl|] eqn:Ec; [|inversion Hpop; subst; exact HI].
+    injection Hpop as Hoa HS'.
+    set (S1 := set_table t (mkTD (td_pb tdl) (td_pa tdl) (td_cren tdl) (adel str_eqb c (td_deltas tdl))) S) in *.
+    subst S'.
+    destruct HI as [Heq Hlag Hgone Hthere Hwf].
+    assert (F1 : forall r, sdelta S t c r = aget Z.eqb r dl).
+    { intro r. rewrite sdelta_dl, Et. unfold dl_get. rewrite Ec. reflexivity. }
+    assert (F2 : forall t2 c2 r2, sdelta S1 t2 c2 r2 =
+                                  if str_eqb t t2 && str_eqb c c2 then None else sdelta S t2 c2 r2).
+    { intros. unfold S1. rewrite sdelta_set_table. cbn [td_deltas]. destruct (str_eqb t t2) eqn:E1; cbn [andb]; [|reflexivity].
+      apply str_eqb_eq in E1. subst t2. unfold dl_get. destruct (str_eqb c c2) eqn:E2.
+      - apply str_eqb_eq in E2. subst c2. rewrite (aget_adel_same str_eqb). reflexivity.
+      - rewrite (aget_adel_other str_eqb str_eqb_eq); [|apply str_eqb_neq in E2; congruence].
+        rewrite sdelta_dl, Et. reflexivity. }
+    assert (F3 : forall t2 r2, pa_get S1 t2 r2 = pa_get S t2 r2).
+    { intros. unfold S1. rewrite pa_get_set_table. cbn [td_pa]. destruct (str_eqb t t2) eqn:E1; [|reflexivity].
+      apply str_eqb_eq in E1. subst t2. unfold pa_get. rewrite Et. reflexivity. }
+    assert (Hsub : forall t2 c2 r2 ba, sdelta S1 t2 c2 r2 = Some ba -> sdelta S t2 c2 r2 = Some ba).
+    { intros t2 c2 r2 ba H. rewrite F2 in H. destruct (str_eqb t t2 && str_eqb c c2); [discriminate|exact H]. }
+    (* the invariant for the unchanged document, whenever the popped deltas change no physical cell *)
+    assert (Hsame : (forall r v ba, InCell dt t c r v -> aget Z.eqb r dl = Some ba -> snd ba = v) -> Inv dt S1 de).
+    { intro Hnochange. constructor.
+      - rewrite Heq. apply map_cells_ext_in. intros t2 c2 r2 v Hc. unfold ov. rewrite F2.
+        destruct (str_eqb t t2 && str_eqb c c2) eqn:E; [|reflexivity].
+        apply andb_true_iff in E. destruct E as [E1 E2]. apply str_eqb_eq in E1. apply str_eqb_eq in E2. subst t2 c2.
+        rewrite F1. destruct (aget Z.eqb r2 dl) eqn:Ea; [|reflexivity]. eapply Hnochange; eassumption.
+      - intros t2 c2 r2 ba v H1 H2. apply Hsub in H1. eapply Hlag; eassumption.
+      - intros t2 r2 H1. rewrite F3 in H1. apply Hgone. exact H1.
+      - intros t2 c2 r2 ba Hd Hdc H1 H2. rewrite F3. apply Hsub in H1. eapply Hthere; eassumption.
+      - exact Hwf. }
+    unfold changes_to_stored in Hoa.
+    destruct dl as [|e0 dl0] eqn:Edl.
+    { subst oa. apply Hsame. intros r v ba _ H. discriminate. }
+    rewrite <- Edl in *. clear Edl e0 dl0.
+    destruct (is_defunct t || is_defunct c) eqn:Edef.
+    { subst oa. apply Hsame. intros r v ba Hc _. exfalso. destruct (InCell_names _ _ _ _ _ Hwf Hc) as [H1 H2].
+      rewrite H1, H2 in Edef. discriminate. }
+    apply orb_false_iff in Edef. destruct Edef as [Edt Edc].
+    rewrite (root_name_alive _ Edt), (root_name_alive _ Edc) in Hoa.
+    assert (Eg : aget str_eqb t (sm_tables S1) =
+                 Some (mkTD (td_pb tdl) (td_pa tdl) (td_cren tdl) (adel str_eqb c (td_deltas tdl)))).
+    { unfold S1, set_table. cbn [sm_tables]. apply (aget_aset_same str_eqb str_eqb_eq). }
+    rewrite Eg in Hoa. cbn [td_pa] in Hoa.
+    set (rows_after := filter (fun r => match aget Z.eqb r (td_pa tdl) with Some false => false | _ => true end)
+                              (sort_by Z.ltb (filter (fun r => match aget Z.eqb r dl with
+                                                               | Some p => negb (Z.eqb (fst p) (snd p))
+                                                               | None => false end) (map fst dl)))) in *.
+    assert (Hra : forall r, In r rows_after <->
+                            (exists ba, aget Z.eqb r dl = Some ba /\ fst ba <> snd ba) /\ pa_get S t r <> Some false).
+    { intro r. unfold rows_after. rewrite filter_In. rewrite sort_by_In. rewrite filter_In.
+      unfold pa_get. rewrite Et. split.
+      - intros [[_ H1] H2]. split.
+        + destruct (aget Z.eqb r dl) as [ba|]; [|discriminate]. exists ba. split; [reflexivity|].
+          apply negb_true_iff in H1. apply Z.eqb_neq in H1. exact H1.
+        + intro E. rewrite E in H2. discriminate.
+      - intros [[ba [H1 H2]] H3]. split.
+        + split.
+          * apply zget_In in H1. apply in_map_iff. exists (r, ba). split; [reflexivity|exact H1].
+          * rewrite H1. apply negb_true_iff. apply Z.eqb_neq. exact H2.
+        + destruct (aget Z.eqb r (td_pa tdl)) as [[|]|]; try reflexivity. exfalso. apply H3. reflexivity. }
+    destruct oa as [act|].
+    - (* an update is emitted *)
+      apply simplify_update_some in Hoa; [|apply map_length]. destruct Hoa as [Hb [Hok Hne]].
+      assert (Hrows : forall r, In r rows_after -> InRow dt t r).
+      { intros r Hr. apply Hra in Hr. destruct Hr as [[ba [H1 _]] H2].
+        destruct (zmem r (rows_of t dt)) eqn:Ez.
+        - apply (InRow_rows_of _ _ _ (proj1 Hwf)). apply zmem_In. exact Ez.
+        - exfalso. apply H2. apply (Hthere t c r ba Edt Edc); [rewrite F1; exact H1|].
+          intro Hin. apply (InRow_rows_of _ _ _ (proj1 Hwf)) in Hin. apply zmem_In in Hin. congruence. }
+      assert (Hamem : amem str_eqb t dt = true).
+      { destruct rows_after as [|r0 rest] eqn:Er; [contradiction|].
+        destruct (Hrows r0 (or_introl eq_refl)) as [tb [Hin _]]. apply amem_tab. exists tb. exact Hin. }
+      assert (Hall : forallb (fun r => zmem r (rows_of t dt)) rows_after = true).
+      { apply forallb_forall. intros r Hr. apply zmem_In. apply (InRow_rows_of _ _ _ (proj1 Hwf)). apply Hrows. exact Hr. }
+      exists (map_cells (hset t c (combine rows_after (map (after_of dl) rows_after))) dt). split.
+      + unfold tds_apply. rewrite Hok. rewrite Hb. cbn [tds_bulk]. rewrite Hamem, Hall. f_equal.
+        unfold tb_update. cbn [fold_left fst snd]. apply set_cells_as_map.
+      + set (h := hset t c (combine rows_after (map (after_of dl) rows_after))).
+        assert (Hh : forall t2 c2 r2 v, h t2 c2 r2 v =
+                       if str_eqb t2 t && str_eqb c2 c then (if zmem r2 rows_after then after_of dl r2 else v) else v).
+        { intros. unfold h, hset. rewrite zget_last_combine_map. destruct (zmem r2 rows_after); reflexivity. }
+        constructor.
+        * rewrite Heq. rewrite map_cells_fuse. apply map_cells_ext_in. intros t2 c2 r2 v Hc. unfold ov. rewrite F2, Hh.
+          rewrite (str_eqb_sym t2 t), (str_eqb_sym c2 c).
+          destruct (str_eqb t t2 && str_eqb c c2) eqn:E; [|reflexivity].
+          apply andb_true_iff in E. destruct E as [E1 E2]. apply str_eqb_eq in E1. apply str_eqb_eq in E2. subst t2 c2.
+          rewrite F1. destruct (zmem r2 rows_after) eqn:Ez.
+          -- apply zmem_In in Ez. apply Hra in Ez. destruct Ez as [[ba [H1 _]] _]. rewrite H1.
+             unfold after_of. rewrite H1. reflexivity.
+          -- apply zmem_false in Ez. destruct (aget Z.eqb r2 dl) as [ba|] eqn:Ea; [|reflexivity].
+             destruct (Z.eq_dec (fst ba) (snd ba)) as [Eba|Nba].
+             ++ rewrite <- Eba. symmetry. apply (Hlag t c r2 ba v); [rewrite F1; exact Ea|exact Hc].
+             ++ exfalso. destruct (pa_get S t r2) as [[|]|] eqn:Epa.
+                ** apply Ez. apply Hra. split; [exists ba; split; assumption|congruence].
+                ** apply (Hgone t r2 Epa). eapply InCell_InRow; eassumption.
+                ** apply Ez. apply Hra. split; [exists ba; split; assumption|congruence].
+        * intros t2 c2 r2 ba v' H1 H2. apply InCell_map_cells in H2. destruct H2 as [v [H2 E]]. subst v'.
+          rewrite F2 in H1. rewrite Hh. rewrite (str_eqb_sym t2 t), (str_eqb_sym c2 c).
+          destruct (str_eqb t t2 && str_eqb c c2); [discriminate|]. eapply Hlag; eassumption.
+        * intros t2 r2 H1 H2. rewrite F3 in H1. apply (Hgone t2 r2 H1). apply (InRow_map_cells h dt t2 r2). exact H2.
+        * intros t2 c2 r2 ba Hd Hdc H1 H2. rewrite F3. apply Hsub in H1. apply (Hthere t2 c2 r2 ba Hd Hdc H1).
+          intro H3. apply H2. apply InRow_map_cells. exact H3.
+        * apply wf_map_cells. exact Hwf.
+    - (* nothing emitted: every changed row is gone *)
+      apply simplify_update_none in Hoa.
+      apply Hsame. intros r v ba Hc Ha.
+      destruct (Z.eq_dec (fst ba) (snd ba)) as [Eba|Nba].
+      + rewrite <- Eba. symmetry. apply (Hlag t c r ba v); [rewrite F1; exact Ha|exact Hc].
+      + exfalso. assert (Hnot : ~ In r rows_after) by (rewrite Hoa; intros []).
+        destruct (pa_get S t r) as [[|]|] eqn:Epa.
+        * apply Hnot. apply Hra. split; [exists ba; split; assumption|congruence].
+        * apply (Hgone t r Epa). eapply InCell_InRow; eassumption.
+        * apply Hnot. apply Hra. split; [exists ba; split; assumption|congruence].
+  Qed.
+End Flush.
+
+(* ------------------------------------------------------------------------------------------------ *)
+(* EDoc: one doc action applied to both documents *)
+
+Lemma InCell_upd_table : forall t F d t2 c r v,
+  InCell (upd_table t F d) t2 c r v <->
+  (t2 <> t /\ InCell d t2 c r v) \/ (t2 = t /\ exists tb, In (t, tb) d /\ TCell (F tb) c r v).
+Proof.
+  intros t F d t2 c r v. unfold InCell. split.
+  - intros [tb2 [Hin Hc]]. apply In_upd_table in Hin. destruct Hin as [[Hne Hin]|[E [tb [Hin E2]]]].
+    + left. split; [exact Hne|]. exists tb2. split; assumption.
+    + subst. right. split; [reflexivity|]. exists tb. split; assumption.
+  - intros [[Hne [tb [Hin Hc]]]|[E [tb [Hin Hc]]]].
+    + exists tb. split; [|exact Hc]. apply In_upd_table. left. split; assumption.
+    + subst. exists (F tb). split; [|exact Hc]. apply In_upd_table. right. split; [reflexivity|]. exists tb. split; [exact Hin|reflexivity].
+Qed.
+
+Lemma InRow_upd_table : forall t F d t2 r,
+  InRow (upd_table t F d) t2 r <->
+  (t2 <> t /\ InRow d t2 r) \/ (t2 = t /\ exists tb, In (t, tb) d /\ In r (t_rows (F tb))).
+Proof.
+  intros t F d t2 r. unfold InRow. split.
+  - intros [tb2 [Hin Hc]]. apply In_upd_table in Hin. destruct Hin as [[Hne Hin]|[E [tb [Hin E2]]]].
+    + left. split; [exact Hne|]. exists tb2. split; assumption.
+    + subst. right. split; [reflexivity|]. exists tb. split; assumption.
+  - intros [[Hne [tb [Hin Hc]]]|[E [tb [Hin Hc]]]].
+    + exists tb. split; [|exact Hc]. apply In_upd_table. left. split; assumption.
+    + subst. exists (F tb). split; [|exact Hc]. apply In_upd_table. right. split; [reflexivity|]. exists tb. split; [exact Hin|reflexivity].
+Qed.
+
+Lemma InRow_upd_table_same : forall t F d,
+  (forall tb, In (t, tb) d -> t_rows (F tb) = t_rows tb) ->
+  forall t2 r, InRow (upd_table t F d) t2 r <-> InRow d t2 r.
+Proof.
+  intros t F d H t2 r. rewrite InRow_upd_table. split.
+  - intros [[_ H1]|[E [tb [Hin Hr]]]]; [exact H1|]. subst. rewrite (H _ Hin) in Hr. exists tb. split; assumption.
+  - intros [tb [Hin Hr]]. destruct (str_eqb t2 t) eqn:E.
+    + apply str_eqb_eq in E. subst. right. split; [reflexivity|]. exists tb. split; [exact Hin|]. rewrite (H _ Hin). exact Hr.
+    + apply str_eqb_neq in E. left. split; [exact E|]. exists tb. split; assumption.
+Qed.
+
+Lemma wf_upd_table : forall t F d,
+  wf_doc d -> (forall tb, In (t, tb) d -> wf_table tb -> wf_table (F tb)) -> wf_doc (upd_table t F d).
+Proof.
+  intros t F d [Hnd Hwf] HF. split; [rewrite upd_table_fst; exact Hnd|].
+  intros t2 tb2 Hin. apply In_upd_table in Hin. destruct Hin as [[Hne Hin]|[E [tb [Hin E2]]]].
+  - apply Hwf. exact Hin.
+  - subst. destruct (Hwf _ _ Hin) as [H1 H2]. split; [exact H1|]. apply HF; assumption.
+Qed.
+
+Lemma upd_table_map_cells2 : forall t F f f' d,
+  (forall tb, In (t, tb) d -> F (map_tcells (f t) tb) = map_tcells (f' t) (F tb)) ->
+  (forall t2 tb, In (t2, tb) d -> t2 <> t -> map_tcells (f t2) tb = map_tcells (f' t2) tb) ->
+  upd_table t F (map_cells f d) = map_cells f' (upd_table t F d).
+Proof.
+  intros t F f f' d H1 H2. unfold upd_table, map_cells. rewrite !map_map. apply map_ext_in. intros [t2 tb] Hin. cbn.
+  destruct (str_eqb t2 t) eqn:E; cbn.
+  - apply str_eqb_eq in E. subst. f_equal. apply H1. exact Hin.
+  - apply str_eqb_neq in E. f_equal. apply H2; assumption.
+Qed.
+
+(* the generic step for an action that transforms one table without renaming anything *)
+Lemma inv_upd_table : forall dt S de S' t F,
+  Inv dt S de ->
+  (forall tb, In (t, tb) dt -> wf_table tb -> wf_table (F tb)) ->
+  (forall tb, In (t, tb) dt -> F (map_tcells (ov S t) tb) = map_tcells (ov S t) (F tb)) ->
+  (forall tb c r v, In (t, tb) dt -> TCell (F tb) c r v -> TCell tb c r v \/ sdelta S' t c r = None) ->
+  (forall t2 c r v, InCell (upd_table t F dt) t2 c r v -> sdelta S' t2 c r = sdelta S t2 c r) ->
+  (forall t2 r, pa_get S' t2 r = Some false -> ~ InRow (upd_table t F dt) t2 r) ->
+  (forall t2 c r ba, is_defunct t2 = false -> is_defunct c = false -> sdelta S' t2 c r = Some ba ->
+                     ~ InRow (upd_table t F dt) t2 r -> pa_get S' t2 r = Some false) ->
+  Inv (upd_table t F dt) S' (upd_table t F de).
+Proof.
+  intros dt S de S' t F HI Hwf' Hcomm Hcells Hsd Hgone' Hthere'. destruct HI as [Heq Hlag Hgone Hthere Hwf].
+  constructor.
+  - rewrite Heq. rewrite upd_table_map_cells by exact Hcomm. apply map_cells_ext_in.
+    intros t2 c r v Hc. unfold ov. rewrite (Hsd _ _ _ _ Hc). reflexivity.
+  - intros t2 c r ba v Hs Hc. rewrite (Hsd _ _ _ _ Hc) in Hs. pose proof Hc as Hc0.
+    apply InCell_upd_table in Hc. destruct Hc as [[Hne Hc]|[E [tb [Hin Hc]]]].
+    + eapply Hlag; eassumption.
+    + subst t2. destruct (Hcells _ _ _ _ Hin Hc) as [Hold|Hnew].
+      * apply (Hlag t c r ba v Hs). exists tb. split; assumption.
+      * rewrite (Hsd _ _ _ _ Hc0) in Hnew. congruence.
+  - exact Hgone'.
+  - exact Hthere'.
+  - apply wf_upd_table; assumption.
+Qed.
+
+(* rows, flags and pending keys unchanged *)
+Lemma gone_there_same : forall dt S S' Y,
+  (forall t r, pa_get S t r = Some false -> ~ InRow dt t r) ->
+  (forall t c r ba, is_defunct t = false -> is_defunct c = false -> sdelta S t c r = Some ba -> ~ InRow dt t r ->
+                    pa_get S t r = Some false) ->
+  (forall t r, InRow Y t r <-> InRow dt t r) ->
+  (forall t r, pa_get S' t r = pa_get S t r) ->
+  (forall t c r ba, is_defunct t = false -> is_defunct c = false -> sdelta S' t c r = Some ba ->
+                    exists ba', sdelta S t c r = Some ba') ->
+  (forall t r, pa_get S' t r = Some false -> ~ InRow Y t r) /\
+  (forall t c r ba, is_defunct t = false -> is_defunct c = false -> sdelta S' t c r = Some ba -> ~ InRow Y t r ->
+                    pa_get S' t r = Some false).
+Proof.
+  intros dt S S' Y Hgone Hthere Hrows Hpa Hsd. split.
+  - intros t r H1 H2. rewrite Hpa in H1. apply Hrows in H2. eapply Hgone; eassumption.
+  - intros t c r ba Hd Hdc H1 H2. rewrite Hpa. destruct (Hsd _ _ _ _ Hd Hdc H1) as [ba' H3].
+    apply (Hthere t c r ba' Hd Hdc H3). intro H4. apply H2. apply Hrows. exact H4.
+Qed.
+
+Lemma row_clear_sdelta : forall S t r c, row_clear S t r = true -> sdelta S t c r = None.
+Proof.
+  intros S t r c H. unfold row_clear in H. rewrite sdelta_dl. destruct (aget str_eqb t (sm_tables S)) as [tdl|]; [|reflexivity].
+  unfold dl_get. destruct (aget str_eqb c (td_deltas tdl)) as [dl|] eqn:E; [|reflexivity].
+  rewrite forallb_forall in H. apply sget_In in E. specialize (H _ E). cbn in H. apply negb_true_iff in H.
+  unfold amem in H. destruct (aget Z.eqb r dl); [discriminate|reflexivity].
+Qed.
+
+Lemma wf_table_names : forall tb tb', wf_table tb ->
+  (forall c, In c (map fst (t_cols tb')) -> In c (map fst (t_cols tb))) ->
+  (forall c r v, TCell tb' c r v -> In r (t_rows tb')) -> wf_table tb'.
+Proof.
+  intros tb tb' Hwf Hn Hc c co Hin. split.
+  - assert (H : In c (map fst (t_cols tb))).
+    { apply Hn. apply in_map_iff. exists (c, co). split; [reflexivity|exact Hin]. }
+    apply in_map_iff in H. destruct H as [[c0 co0] [E H]]. cbn in E. subst. apply (Hwf _ _ H).
+  - intros r v Hr. apply (Hc c r v). exists co. split; assumption.
+Qed.
+
+Lemma TCell_row : forall tb c r v, wf_table tb -> TCell tb c r v -> In r (t_rows tb).
+Proof. intros tb c r v Hwf [co [Hc Hr]]. destruct (Hwf _ _ Hc) as [_ H]. eapply H. exact Hr. Qed.
+
+Section DocKinds.
+  Variable td : str -> V.
+
+  Lemma tab_of_amem : forall (d : doc) t, amem str_eqb t d = true -> exists tb, In (t, tb) d.
+  Proof. intros d t H. apply amem_tab. exact H. Qed.
+
+  (* --- BulkAddRecord *)
+  Lemma inv_add_rows : forall dt S de t rs cols,
+    Inv dt S de -> amem str_eqb t dt = true -> forallb (row_clear S t) rs = true ->
+    Inv (upd_table t (tds_add_rows td rs cols) dt) (add_records t rs S) (upd_table t (tds_add_rows td rs cols) de).
+  Proof.
+    intros dt S de t rs cols HI Ht Hclear.
+    assert (Hc : forall c r, In r rs -> sdelta S t c r = None).
+    { intros c r Hr. apply row_clear_sdelta. rewrite forallb_forall in Hclear. apply Hclear. exact Hr. }
+    pose proof HI as [Heq Hlag Hgone Hthere Hwf].
+    destruct (tab_of_amem _ _ Ht) as [tb0 Htb0].
+    apply (inv_upd_table dt S de); try assumption.
+    - intros tb Hin Hwt. apply (wf_table_names tb).
+      + exact Hwt.
+      + intros c Hc'. rewrite tds_add_rows_colnames in Hc'. exact Hc'.
+      + intros c r v Hcell. cbn. apply in_or_app. apply tds_add_rows_cell in Hcell. destruct Hcell as [Ho|Hn].
+        * left. eapply TCell_row; eassumption.
+        * right. exact Hn.
+    - intros tb Hin. apply tds_add_rows_comm. intros c r v Hr. unfold ov. rewrite (Hc c r Hr). reflexivity.
+    - intros tb c r v Hin Hcell. apply tds_add_rows_cell in Hcell. destruct Hcell as [Ho|Hn]; [left; exact Ho|].
+      right. rewrite sdelta_add_records. apply Hc. exact Hn.
+    - intros. apply sdelta_add_records.
+    - intros t2 r Hpa Hrow. rewrite pa_get_add_records in Hpa.
+      destruct (str_eqb t t2 && zmem r rs) eqn:E; [discriminate|].
+      apply InRow_upd_table in Hrow. destruct Hrow as [[Hne Hrow]|[E2 [tb [Hin Hr]]]].
+      + eapply Hgone; eassumption.
+      + subst t2. rewrite str_eqb_refl in E. cbn in E. apply zmem_false in E. cbn in Hr. apply in_app_or in Hr.
+        destruct Hr as [Hr|Hr]; [|contradiction]. apply (Hgone t r Hpa). exists tb. split; assumption.
+    - intros t2 c r ba Hd Hdc Hs Hrow. rewrite sdelta_add_records in Hs. rewrite pa_get_add_records.
+      assert (Hnr : ~ InRow dt t2 r).
+      { intro H. apply Hrow. apply InRow_upd_table. destruct H as [tb [Hin Hr]]. destruct (str_eqb t2 t) eqn:E.
+        - apply str_eqb_eq in E. subst. right. split; [reflexivity|]. exists tb. split; [exact Hin|]. cbn. apply in_or_app. left. exact Hr.
+        - apply str_eqb_neq in E. left. split; [exact E|]. exists tb. split; assumption. }
+      destruct (str_eqb t t2 && zmem r rs) eqn:E.
+      + exfalso. apply andb_true_iff in E. destruct E as [E1 E2]. apply str_eqb_eq in E1. subst t2. apply zmem_In in E2.
+        apply Hrow. apply InRow_upd_table. right. split; [reflexivity|]. exists tb0. split; [exact Htb0|].
+        cbn. apply in_or_app. right. exact E2.
+      + eapply Hthere; eassumption.
+  Qed.
+
+  (* --- BulkRemoveRecord *)
+  Definition removed_sum (t : str) (rs' : list Z) (S : summary) : summary :=
+    match rs' with [] => S | _ => remove_records t rs' S end.
+
+  Lemma sdelta_removed_sum : forall t rs' S t2 c r, sdelta (removed_sum t rs' S) t2 c r = sdelta S t2 c r.
+  Proof. intros. unfold removed_sum. destruct rs'; [reflexivity|apply sdelta_remove_records]. Qed.
+
+  Lemma pa_get_removed_sum : forall t rs' S t2 r,
+    pa_get (removed_sum t rs' S) t2 r = if str_eqb t t2 && zmem r rs' then Some false else pa_get S t2 r.
+  Proof.
+    intros. unfold removed_sum. destruct rs' as [|x rs'].
+    - cbn. rewrite andb_false_r. reflexivity.
+    - apply pa_get_remove_records.
+  Qed.
+
+  Lemma inv_remove_rows : forall dt S de t rs,
+    Inv dt S de ->
+    Inv (upd_table t (tb_remove_rows rs) dt)
+        (removed_sum t (filter (fun r => zmem r (rows_of t dt)) rs) S)
+        (upd_table t (tb_remove_rows rs) de).
+  Proof.
+    intros dt S de t rs HI. pose proof HI as [Heq Hlag Hgone Hthere Hwf].
+    set (rs' := filter (fun r => zmem r (rows_of t dt)) rs).
+    apply (inv_upd_table dt S de); try assumption.
+    - intros tb Hin Hwt. apply (wf_table_names tb).
+      + exact Hwt.
+      + intros c Hc. rewrite tb_remove_rows_colnames in Hc. exact Hc.
+      + intros c r v Hcell. apply tb_remove_rows_cell in Hcell. destruct Hcell as [Hcell Hn].
+        apply tb_remove_rows_rows. split; [eapply TCell_row; eassumption|exact Hn].
+    - intros tb Hin. apply tb_remove_rows_comm.
+    - intros tb c r v Hin Hcell. left. apply tb_remove_rows_cell in Hcell. apply Hcell.
+    - intros. apply sdelta_removed_sum.
+    - intros t2 r Hpa Hrow. rewrite pa_get_removed_sum in Hpa. apply InRow_upd_table in Hrow.
+      destruct (str_eqb t t2 && zmem r rs') eqn:E.
+      + apply andb_true_iff in E. destruct E as [E1 E2]. apply str_eqb_eq in E1. subst t2. apply zmem_In in E2.
+        unfold rs' in E2. apply filter_In in E2. destruct E2 as [E2 _].
+        destruct Hrow as [[Hne _]|[_ [tb [Hin Hr]]]]; [congruence|]. apply tb_remove_rows_rows in Hr. apply Hr. exact E2.
+      + destruct Hrow as [[Hne Hrow]|[E2 [tb [Hin Hr]]]].
+        * eapply Hgone; eassumption.
+        * subst t2. apply tb_remove_rows_rows in Hr. apply (Hgone t r Hpa). exists tb. split; [exact Hin|apply Hr].
+    - intros t2 c r ba Hd Hdc Hs Hrow. rewrite sdelta_removed_sum in Hs. rewrite pa_get_removed_sum.
+      destruct (str_eqb t t2 && zmem r rs') eqn:E; [reflexivity|].
+      apply (Hthere t2 c r ba Hd Hdc Hs). intro H. apply Hrow. apply InRow_upd_table. destruct H as [tb [Hin Hr]].
+      destruct (str_eqb t2 t) eqn:E2.
+      + apply str_eqb_eq in E2. subst t2. right. split; [reflexivity|]. exists tb. split; [exact Hin|].
+        apply tb_remove_rows_rows. split; [exact Hr|]. intro Hrs. rewrite str_eqb_refl in E. cbn in E. apply zmem_false in E.
+        apply E. unfold rs'. apply filter_In. split; [exact Hrs|]. apply zmem_In.
+        apply (InRow_rows_of _ _ _ (proj1 Hwf)). exists tb. split; assumption.
+      + apply str_eqb_neq in E2. left. split; [exact E2|]. exists tb. split; assumption.
+  Qed.
+
+  (* --- BulkUpdateRecord *)
+  Lemma inv_update : forall dt S de t rs cols,
+    Inv dt S de ->
+    forallb (fun p => forallb (fun r => match sdelta S t (fst p) r with None => true | Some _ => false end) rs) cols = true ->
+    Inv (upd_table t (tb_update rs cols) dt) S (upd_table t (tb_update rs cols) de).
+  Proof.
+    intros dt S de t rs cols HI Hsc. pose proof HI as [Heq Hlag Hgone Hthere Hwf].
+    assert (Hc : forall c r, In c (map fst cols) -> In r rs -> sdelta S t c r = None).
+    { intros c r Hc Hr. apply in_map_iff in Hc. destruct Hc as [[c0 vs] [E Hc]]. cbn in E. subst c0.
+      rewrite forallb_forall in Hsc. specialize (Hsc _ Hc). cbn in Hsc. rewrite forallb_forall in Hsc.
+      specialize (Hsc _ Hr). destruct (sdelta S t c r); [discriminate|reflexivity]. }
+    destruct (gone_there_same dt S S (upd_table t (tb_update rs cols) dt) Hgone Hthere) as [G1 G2].
+    { apply InRow_upd_table_same. intros tb _. apply tb_update_rows. }
+    { reflexivity. }
+    { intros t2 c r ba _ _ H. exists ba. exact H. }
+    apply (inv_upd_table dt S de); try assumption.
+    - intros tb Hin Hwt. apply (wf_table_names tb).
+      + exact Hwt.
+      + intros c Hc'. rewrite tb_update_colnames in Hc'. exact Hc'.
+      + intros c r v Hcell. rewrite tb_update_rows. apply tb_update_cell in Hcell.
+        destruct Hcell as [Ho|[_ [_ [v0 Ho]]]]; eapply TCell_row; eassumption.
+    - intros tb Hin. apply tb_update_comm. intros c vs r v Hcv Hr. unfold ov. rewrite (Hc c r); [reflexivity| |exact Hr].
+      apply in_map_iff. exists (c, vs). split; [reflexivity|exact Hcv].
+    - intros tb c r v Hin Hcell. apply tb_update_cell in Hcell. destruct Hcell as [Ho|[H1 [H2 _]]]; [left; exact Ho|].
+      right. apply Hc; assumption.
+    - reflexivity.
+  Qed.
+
+  (* --- ReplaceTableData *)
+  Lemma inv_replace : forall dt S de t rs cols,
+    Inv dt S de -> amem str_eqb t dt = true -> forallb (row_clear S t) rs = true ->
+    Inv (upd_table t (fun tb => tds_add_rows td rs cols (tb_clear tb)) dt)
+        (add_records t rs (remove_records t (rows_of t dt) S))
+        (upd_table t (fun tb => tds_add_rows td rs cols (tb_clear tb)) de).
+  Proof.
+    intros dt S de t rs cols HI Ht Hclear.
+    assert (Hc : forall c r, In r rs -> sdelta S t c r = None).
+    { intros c r Hr. apply row_clear_sdelta. rewrite forallb_forall in Hclear. apply Hclear. exact Hr. }
+    pose proof HI as [Heq Hlag Hgone Hthere Hwf].
+    destruct (tab_of_amem _ _ Ht) as [tb0 Htb0].
+    assert (Hsd : forall t2 c r, sdelta (add_records t rs (remove_records t (rows_of t dt) S)) t2 c r = sdelta S t2 c r).
+    { intros. rewrite sdelta_add_records. apply sdelta_remove_records. }
+    assert (Hpa : forall t2 r, pa_get (add_records t rs (remove_records t (rows_of t dt) S)) t2 r =
+                               if str_eqb t t2 && zmem r rs then Some true
+                               else if str_eqb t t2 && zmem r (rows_of t dt) then Some false else pa_get S t2 r).
+    { intros. rewrite pa_get_add_records. rewrite pa_get_remove_records. reflexivity. }
+    assert (Hrows : forall tb, t_rows (tds_add_rows td rs cols (tb_clear tb)) = rs) by reflexivity.
+    apply (inv_upd_table dt S de); try assumption.
+    - intros tb Hin Hwt. apply (wf_table_names tb).
+      + exact Hwt.
+      + intros c Hc'. rewrite tds_add_rows_colnames, tb_clear_colnames in Hc'. exact Hc'.
+      + intros c r v Hcell. rewrite Hrows. apply tds_add_rows_cell in Hcell. destruct Hcell as [Ho|Hn]; [|exact Hn].
+        exfalso. eapply tb_clear_cell. exact Ho.
+    - intros tb Hin. rewrite tb_clear_map. rewrite <- (map_tb_clear (ov S t) tb) at 1.
+      apply tds_add_rows_comm. intros c r v Hr. unfold ov. rewrite (Hc c r Hr). reflexivity.
+    - intros tb c r v Hin Hcell. apply tds_add_rows_cell in Hcell. destruct Hcell as [Ho|Hn].
+      + exfalso. eapply tb_clear_cell. exact Ho.
+      + right. rewrite Hsd. apply Hc. exact Hn.
+    - intros. apply Hsd.
+    - intros t2 r Hp Hrow. rewrite Hpa in Hp. apply InRow_upd_table in Hrow.
+      destruct (str_eqb t t2) eqn:E; cbn [andb] in Hp.
+      + apply str_eqb_eq in E. subst t2. destruct Hrow as [[Hne _]|[_ [tb [Hin Hr]]]]; [congruence|].
+        rewrite Hrows in Hr. apply zmem_In in Hr. rewrite Hr in Hp. discriminate.
+      + apply str_eqb_neq in E. destruct Hrow as [[Hne Hrow]|[E2 _]]; [|congruence]. eapply Hgone; eassumption.
+    - intros t2 c r ba Hd Hdc Hs Hrow. rewrite Hsd in Hs. rewrite Hpa.
+      destruct (str_eqb t t2) eqn:E; cbn [andb].
+      + apply str_eqb_eq in E. subst t2. destruct (zmem r rs) eqn:Er.
+        * exfalso. apply Hrow. apply InRow_upd_table. right. split; [reflexivity|]. exists tb0. split; [exact Htb0|].
+          rewrite Hrows. apply zmem_In. exact Er.
+        * destruct (zmem r (rows_of t dt)) eqn:Eo; [reflexivity|].
+          apply (Hthere t c r ba Hd Hdc Hs). intro H. apply (InRow_rows_of _ _ _ (proj1 Hwf)) in H. apply zmem_In in H. congruence.
+      + apply str_eqb_neq in E. apply (Hthere t2 c r ba Hd Hdc Hs). intro H. apply Hrow. apply InRow_upd_table.
+        left. split; [congruence|exact H].
+  Qed.
+End DocKinds.
+
+Lemma defunct_name_neq : forall c, c <> defunct_name c.
+Proof. intros c E. apply (f_equal (@length Z)) in E. unfold defunct_name in E. cbn in E. lia. Qed.
+
+Lemma alive_not_defunct_name : forall c c2, is_defunct c2 = false -> c2 <> defunct_name c.
+Proof. intros c c2 H E. subst. discriminate. Qed.
+
+Lemma sdelta_rename_column_old : forall S t o n r,
+  o <> n -> sdelta (rename_column t (Some o) n S) t o r = None.
+Proof.
+  intros S t o n r H. rewrite sdelta_rename_column.
+  destruct (aget str_eqb o (td_deltas (for_table t S))) eqn:E.
+  - assert (E1 : str_eqb n o = false) by (apply str_eqb_neq; congruence). rewrite E1. rewrite str_eqb_refl. reflexivity.
+  - rewrite <- sdelta_for_table. unfold dl_get. rewrite E. reflexivity.
+Qed.
+
+Lemma gone_there_same2 : forall dt S S' Y,
+  (forall t r, pa_get S t r = Some false -> ~ InRow dt t r) ->
+  (forall t c r ba, is_defunct t = false -> is_defunct c = false -> sdelta S t c r = Some ba -> ~ InRow dt t r ->
+                    pa_get S t r = Some false) ->
+  (forall t r, InRow Y t r <-> InRow dt t r) ->
+  (forall t r, pa_get S' t r = pa_get S t r) ->
+  (forall t c r ba, is_defunct t = false -> is_defunct c = false -> sdelta S' t c r = Some ba ->
+                    exists c0 ba', is_defunct c0 = false /\ sdelta S t c0 r = Some ba') ->
+  (forall t r, pa_get S' t r = Some false -> ~ InRow Y t r) /\
+  (forall t c r ba, is_defunct t = false -> is_defunct c = false -> sdelta S' t c r = Some ba -> ~ InRow Y t r ->
+                    pa_get S' t r = Some false).
+Proof.
+  intros dt S S' Y Hgone Hthere Hrows Hpa Hsd. split.
+  - intros t r H1 H2. rewrite Hpa in H1. apply Hrows in H2. eapply Hgone; eassumption.
+  - intros t c r ba Hd Hdc H1 H2. rewrite Hpa. destruct (Hsd _ _ _ _ Hd Hdc H1) as [c0 [ba' [H0 H3]]].
+    apply (Hthere t c0 r ba' Hd H0 H3). intro H4. apply H2. apply Hrows. exact H4.
+Qed.
+
+Section ColumnKinds.
+  Variable td : str -> V.
+
+  Definition addcol_tds (c ty : str) (tb : table) : table :=
+    mkTable (t_rows tb) (adel str_eqb c (t_cols tb) ++ [(c, new_col td ty (t_rows tb))]).
+  Definition delcol (c : str) (tb : table) : table := mkTable (t_rows tb) (adel str_eqb c (t_cols tb)).
+  Definition rencol (c c' : str) (tb : table) : table := mkTable (t_rows tb) (rename_key c c' (t_cols tb)).
+
+  (* --- AddColumn *)
+  Lemma inv_addcol : forall dt S de t c ty,
+    Inv dt S de -> is_defunct c = false -> key_clear S t c = true ->
+    Inv (upd_table t (addcol_tds c ty) dt) (rename_column t None c S) (upd_table t (addcol_tds c ty) de).
+  Proof.
+    intros dt S de t c ty HI Hdc Hkc. pose proof HI as [Heq Hlag Hgone Hthere Hwf].
+    destruct (gone_there_same dt S (rename_column t None c S) (upd_table t (addcol_tds c ty) dt) Hgone Hthere) as [G1 G2].
+    { apply InRow_upd_table_same. intros tb _. reflexivity. }
+    { intros. apply pa_get_rename_column. }
+    { intros t2 c2 r ba _ _ H. rewrite sdelta_add_column in H. exists ba. exact H. }
+    apply (inv_upd_table dt S de); try assumption.
+    - intros tb Hin Hwt c2 co Hc. unfold addcol_tds in Hc. cbn [t_cols t_rows] in *. apply in_app_or in Hc.
+      destruct Hc as [Hc|[Hc|[]]].
+      + apply (adel_In str_eqb str_eqb_eq) in Hc. destruct Hc as [Hc _]. apply (Hwt _ _ Hc).
+      + inversion Hc; subst. split; [exact Hdc|]. intros r v Hr. unfold new_col in Hr. cbn in Hr.
+        apply in_map_iff in Hr. destruct Hr as [r0 [E Hr]]. inversion E; subst. exact Hr.
+    - intros tb Hin. unfold addcol_tds. apply (addcol_tds_comm td (ov S t) c ty tb).
+      intros r v. unfold ov. rewrite (key_clear_sdelta _ _ _ _ Hkc). reflexivity.
+    - intros tb c2 r v Hin [co [Hc Hr]]. unfold addcol_tds in Hc. cbn [t_cols] in Hc. apply in_app_or in Hc.
+      destruct Hc as [Hc|[Hc|[]]].
+      + left. apply (adel_In str_eqb str_eqb_eq) in Hc. destruct Hc as [Hc _]. exists co. split; assumption.
+      + inversion Hc; subst. right. rewrite sdelta_add_column. apply key_clear_sdelta. exact Hkc.
+    - intros. apply sdelta_add_column.
+  Qed.
+
+  (* --- RemoveColumn *)
+  Lemma sdelta_add_changes_other : forall S t c chs t2 c2 r,
+    (t2 <> t \/ c2 <> c) -> sdelta (add_changes t c chs S) t2 c2 r = sdelta S t2 c2 r.
+  Proof.
+    intros S t c chs t2 c2 r H. unfold add_changes. rewrite sdelta_set_table. cbn [td_deltas].
+    destruct (str_eqb t t2) eqn:Et; [|reflexivity]. apply str_eqb_eq in Et. subst t2.
+    unfold dl_get at 1. rewrite (aget_aset_other str_eqb str_eqb_eq).
+    - apply sdelta_for_table.
+    - destruct H as [H|H]; congruence.
+  Qed.
+
+  Lemma inv_delcol : forall dt S de t c pre,
+    Inv dt S de ->
+    Inv (upd_table t (delcol c) dt)
+        (rename_column t (Some c) (defunct_name c) (match pre with [] => S | _ => add_changes t c pre S end))
+        (upd_table t (delcol c) de).
+  Proof.
+    intros dt S de t c pre HI. pose proof HI as [Heq Hlag Hgone Hthere Hwf].
+    set (S0 := match pre with [] => S | _ => add_changes t c pre S end).
+    set (S' := rename_column t (Some c) (defunct_name c) S0).
+    assert (A : forall t2 c2 r, (t2 <> t \/ c2 <> c) -> sdelta S0 t2 c2 r = sdelta S t2 c2 r).
+    { intros. unfold S0. destruct pre; [reflexivity|]. apply sdelta_add_changes_other. assumption. }
+    assert (B : forall t2 r, pa_get S' t2 r = pa_get S t2 r).
+    { intros. unfold S'. rewrite pa_get_rename_column. unfold S0. destruct pre; [reflexivity|]. apply pa_get_add_changes. }
+    assert (C : forall t2 c2 r, is_defunct c2 = false -> (t2 <> t \/ c2 <> c) -> sdelta S' t2 c2 r = sdelta S t2 c2 r).
+    { intros t2 c2 r Hd H. unfold S'. destruct (str_eqb t2 t) eqn:Et.
+      - apply str_eqb_eq in Et. subst t2. destruct H as [H|H]; [congruence|].
+        rewrite sdelta_rename_column_other; [apply A; right; exact H| |exact H].
+        apply alive_not_defunct_name. exact Hd.
+      - apply str_eqb_neq in Et. rewrite sdelta_rename_column_other_table by exact Et. apply A. left. exact Et. }
+    assert (D : forall r, sdelta S' t c r = None).
+    { intro r. unfold S'. apply sdelta_rename_column_old. apply defunct_name_neq. }
+    destruct (gone_there_same dt S S' (upd_table t (delcol c) dt) Hgone Hthere) as [G1 G2].
+    { apply InRow_upd_table_same. intros tb _. reflexivity. }
+    { exact B. }
+    { intros t2 c2 r ba _ Hd H. destruct (str_eqb t2 t) eqn:Et; [destruct (str_eqb c2 c) eqn:Ec|].
+      - apply str_eqb_eq in Et. apply str_eqb_eq in Ec. subst. rewrite D in H. discriminate.
+      - apply str_eqb_neq in Ec. rewrite C in H; [exists ba; exact H|exact Hd|right; exact Ec].
+      - apply str_eqb_neq in Et. rewrite C in H; [exists ba; exact H|exact Hd|left; exact Et]. }
+    apply (inv_upd_table dt S de); try assumption.
+    - intros tb Hin Hwt. apply (wf_table_names tb).
+      + exact Hwt.
+      + intros c2 Hc. unfold delcol in Hc. cbn [t_cols] in Hc. apply in_map_iff in Hc. destruct Hc as [[c3 co] [E Hc]].
+        cbn in E. subst. apply (adel_In str_eqb str_eqb_eq) in Hc. apply in_map_iff. exists (c2, co). split; [reflexivity|apply Hc].
+      + intros c2 r v [co [Hc Hr]]. unfold delcol in *. cbn [t_cols t_rows] in *.
+        apply (adel_In str_eqb str_eqb_eq) in Hc. eapply TCell_row; [exact Hwt|]. exists co. split; [apply Hc|exact Hr].
+    - intros tb Hin. unfold delcol. apply delcol_comm.
+    - intros tb c2 r v Hin [co [Hc Hr]]. left. unfold delcol in Hc. cbn [t_cols] in Hc.
+      apply (adel_In str_eqb str_eqb_eq) in Hc. exists co. split; [apply Hc|exact Hr].
+    - intros t2 c2 r v Hc. apply InCell_upd_table in Hc. destruct Hc as [[Hne Hc]|[E [tb [Hin [co [Hc Hr]]]]]].
+      + apply C; [|left; exact Hne]. eapply InCell_names; eassumption.
+      + subst t2. unfold delcol in Hc. cbn [t_cols] in Hc. apply (adel_In str_eqb str_eqb_eq) in Hc. destruct Hc as [Hc Hne].
+        cbn in Hne. apply C; [|right; exact Hne]. destruct Hwf as [_ Hwf]. destruct (Hwf _ _ Hin) as [_ Hwt]. apply (Hwt _ _ Hc).
+  Qed.
+
+  (* --- RenameColumn *)
+  Lemma inv_rencol : forall dt S de t c c',
+    Inv dt S de -> c <> c' -> is_defunct c = false -> is_defunct c' = false -> key_clear S t c' = true ->
+    Inv (upd_table t (rencol c c') dt) (rename_column t (Some c) c' S) (upd_table t (rencol c c') de).
+  Proof.
+    intros dt S de t c c' HI Hne Hdc Hdc' Hkc. pose proof HI as [Heq Hlag Hgone Hthere Hwf].
+    set (S' := rename_column t (Some c) c' S).
+    assert (E1 : forall r, sdelta S' t c' r = sdelta S t c r) by (intro r; apply sdelta_rename_column_new; exact Hkc).
+    assert (E2 : forall c2 r, c2 <> c' -> c2 <> c -> sdelta S' t c2 r = sdelta S t c2 r)
+      by (intros; apply sdelta_rename_column_other; assumption).
+    assert (E3 : forall t2 c2 r, t2 <> t -> sdelta S' t2 c2 r = sdelta S t2 c2 r)
+      by (intros; apply sdelta_rename_column_other_table; assumption).
+    assert (E4 : forall r, sdelta S' t c r = None) by (intro r; apply sdelta_rename_column_old; exact Hne).
+    destruct (gone_there_same2 dt S S' (upd_table t (rencol c c') dt) Hgone Hthere) as [G1 G2].
+    { apply InRow_upd_table_same. intros tb _. reflexivity. }
+    { intros. apply pa_get_rename_column. }
+    { intros t2 c2 r ba _ Hd H. destruct (str_eqb t2 t) eqn:Et.
+      - apply str_eqb_eq in Et. subst t2. destruct (str_eqb c2 c') eqn:Ec'.
+        + apply str_eqb_eq in Ec'. subst c2. rewrite E1 in H. exists c, ba. split; assumption.
+        + apply str_eqb_neq in Ec'. destruct (str_eqb c2 c) eqn:Ec.
+          * apply str_eqb_eq in Ec. subst c2. rewrite E4 in H. discriminate.
+          * apply str_eqb_neq in Ec. rewrite E2 in H by assumption. exists c2, ba. split; assumption.
+      - apply str_eqb_neq in Et. rewrite E3 in H by exact Et. exists c2, ba. split; assumption. }
+    constructor.
+    - rewrite Heq. apply (upd_table_map_cells2 t (rencol c c') (ov S) (ov S')).
+      + intros tb Hin. unfold rencol. apply rename_key_cols_comm.
+        * intros r v. unfold ov. rewrite E1. reflexivity.
+        * intros c2 r v H1 H2. unfold ov. rewrite E2 by assumption. reflexivity.
+      + intros t2 tb Hin Ht. apply map_tcells_ext. intros c2 r v _. unfold ov. rewrite E3 by exact Ht. reflexivity.
+    - intros t2 c2 r ba v Hs Hc. apply InCell_upd_table in Hc. destruct Hc as [[Ht Hc]|[E [tb [Hin [co [Hc Hr]]]]]].
+      + rewrite E3 in Hs by exact Ht. eapply Hlag; eassumption.
+      + subst t2. unfold rencol in Hc. cbn [t_cols] in Hc. apply rename_key_In in Hc.
+        destruct Hc as [[E [Hc _]]|[H1 [H2 Hc]]].
+        * subst c2. rewrite E1 in Hs. apply (Hlag t c r ba v Hs). exists tb. split; [exact Hin|]. exists co. split; assumption.
+        * rewrite E2 in Hs by assumption. apply (Hlag t c2 r ba v Hs). exists tb. split; [exact Hin|]. exists co. split; assumption.
+    - exact G1.
+    - exact G2.
+    - apply wf_upd_table; [exact Hwf|]. intros tb Hin Hwt c2 co Hc. unfold rencol in *. cbn [t_cols t_rows] in *.
+      apply rename_key_In in Hc. destruct Hc as [[E [Hc _]]|[H1 [H2 Hc]]].
+      + subst c2. split; [exact Hdc'|]. apply (Hwt _ _ Hc).
+      + apply (Hwt _ _ Hc).
+  Qed.
+
+  (* --- ModifyColumn *)
+  Lemma inv_modcol : forall dt S de t c ty,
+    Inv dt S de -> Inv (upd_table t (upd_col c (set_type ty)) dt) S (upd_table t (upd_col c (set_type ty)) de).
+  Proof.
+    intros dt S de t c ty HI. pose proof HI as [Heq Hlag Hgone Hthere Hwf].
+    assert (Hcells : forall co, c_cells (set_type ty co) = c_cells co) by (intro co; destruct ty; reflexivity).
+    destruct (gone_there_same dt S S (upd_table t (upd_col c (set_type ty)) dt) Hgone Hthere) as [G1 G2].
+    { apply InRow_upd_table_same. intros tb _. reflexivity. }
+    { reflexivity. }
+    { intros t2 c2 r ba _ _ H. exists ba. exact H. }
+    assert (Hold : forall tb c2 r v, TCell (upd_col c (set_type ty) tb) c2 r v -> TCell tb c2 r v).
+    { intros tb c2 r v H. apply upd_col_cell in H. destruct H as [[_ H]|[E [co [Hc Hr]]]]; [exact H|].
+      subst. rewrite Hcells in Hr. exists co. split; assumption. }
+    apply (inv_upd_table dt S de); try assumption.
+    - intros tb Hin Hwt. apply (wf_table_names tb).
+      + exact Hwt.
+      + intros c2 Hc. rewrite upd_col_colnames in Hc. exact Hc.
+      + intros c2 r v Hc. apply Hold in Hc. unfold upd_col. cbn [t_rows]. eapply TCell_row; eassumption.
+    - intros tb Hin. apply upd_col_comm. intro co. apply set_type_comm.
+    - intros tb c2 r v Hin Hc. left. apply Hold. exact Hc.
+    - reflexivity.
+  Qed.
+End ColumnKinds.
+
+(* --- tables *)
+Lemma NoDup_snoc : forall {A} (l : list A) x, NoDup l -> ~ In x l -> NoDup (l ++ [x]).
+Proof.
+  intros A l x Hnd Hx. induction l as [|y l IH]; cbn.
+  - constructor; [intros []|constructor].
+  - inversion Hnd; subst. constructor.
+    + intro H. apply in_app_or in H. destruct H as [H|[H|[]]]; [contradiction|]. subst. apply Hx. left. reflexivity.
+    + apply IH; [assumption|]. intro H. apply Hx. right. exact H.
+Qed.
+
+Lemma adel_fst_nodup : forall {A} t (d : list (str * A)), NoDup (map fst d) -> NoDup (map fst (adel str_eqb t d)).
+Proof.
+  intros A t d. induction d as [|p d IH]; cbn; intro H; [constructor|]. inversion H; subst.
+  destruct (str_eqb (fst p) t); cbn; [apply IH; assumption|]. constructor; [|apply IH; assumption].
+  intro Hin. apply H2. apply in_map_iff in Hin. destruct Hin as [q [E Hq]]. apply (adel_In str_eqb str_eqb_eq) in Hq.
+  apply in_map_iff. exists q. split; [exact E|apply Hq].
+Qed.
+
+Lemma map_cells_adel : forall f t d, adel str_eqb t (map_cells f d) = map_cells f (adel str_eqb t d).
+Proof.
+  intros. unfold adel, map_cells.
+  apply (filter_map_fst (fun k => negb (str_eqb k t)) (fun p => (fst p, map_tcells (f (fst p)) (snd p)))).
+  intro x. reflexivity.
+Qed.
+
+Lemma new_table_no_cells : forall cols c r v, ~ TCell (new_table cols) c r v.
+Proof.
+  intros cols c r v [co [Hc Hr]]. unfold new_table in Hc. cbn in Hc. apply in_map_iff in Hc.
+  destruct Hc as [[c0 ty] [E Hc]]. cbn in E. inversion E; subst. cbn in Hr. contradiction.
+Qed.
+
+Definition ren_tab (t t' : str) (p : str * table) : str * table := if str_eqb (fst p) t then (t', snd p) else p.
+
+Lemma In_ren_tab : forall t t' d t2 tb,
+  In (t2, tb) (map (ren_tab t t') d) <-> (t2 = t' /\ In (t, tb) d) \/ (t2 <> t /\ In (t2, tb) d).
+Proof.
+  intros t t' d t2 tb. rewrite in_map_iff. unfold ren_tab. split.
+  - intros [[k x] [E Hin]]. cbn in E. destruct (str_eqb k t) eqn:Ek.
+    + apply str_eqb_eq in Ek. subst k. inversion E; subst. left. split; [reflexivity|exact Hin].
+    + apply str_eqb_neq in Ek. inversion E; subst. right. split; assumption.
+  - intros [[E Hin]|[Hne Hin]].
+    + subst. exists (t, tb). cbn. rewrite str_eqb_refl. split; [reflexivity|exact Hin].
+    + exists (t2, tb). cbn. apply str_eqb_neq in Hne. rewrite Hne. split; [reflexivity|exact Hin].
+Qed.
+
+Lemma ren_tab_nodup : forall t t' (d : doc), NoDup (map fst d) -> ~ In t' (map fst d) -> NoDup (map fst (map (ren_tab t t') d)).
+Proof.
+  intros t t' d. induction d as [|[k x] d IH]; cbn; intros Hnd Hn; [constructor|]. inversion Hnd; subst.
+  assert (Hn' : ~ In t' (map fst d)) by (intro H; apply Hn; right; exact H).
+  assert (Hk : k <> t') by (intro H; apply Hn; left; exact H).
+  constructor; [|apply IH; assumption].
+  intro Hin. apply in_map_iff in Hin. destruct Hin as [[k2 x2] [E Hin]]. apply In_ren_tab in Hin. cbn in E.
+  unfold ren_tab in E. cbn in E. destruct (str_eqb k t) eqn:Ek; cbn in E.
+  - apply str_eqb_eq in Ek. subst k. subst k2. destruct Hin as [[_ Hin]|[Hne Hin]].
+    + apply H1. apply in_map_iff. exists (t, x2). split; [reflexivity|exact Hin].
+    + apply Hn'. apply in_map_iff. exists (t', x2). split; [reflexivity|exact Hin].
+  - subst k2. destruct Hin as [[E _]|[_ Hin]]; [congruence|].
+    apply H1. apply in_map_iff. exists (k, x2). split; [reflexivity|exact Hin].
+Qed.
+
+Section TableKinds.
+  Variable td : str -> V.
+
+  Lemma inv_addtable : forall dt S de t cols,
+    Inv dt S de -> amem str_eqb t dt = false -> is_defunct t = false ->
+    forallb (fun p => negb (is_defunct (fst p))) cols = true ->
+    Inv (dt ++ [(t, new_table cols)]) (rename_table None t S) (de ++ [(t, new_table cols)]).
+  Proof.
+    intros dt S de t cols HI Ht Hdt Hdc. destruct HI as [Heq Hlag Hgone Hthere Hwf].
+    assert (Hcell : forall t2 c r v, InCell (dt ++ [(t, new_table cols)]) t2 c r v -> InCell dt t2 c r v).
+    { intros t2 c r v [tb [Hin Hc]]. apply in_app_or in Hin. destruct Hin as [Hin|[Hin|[]]].
+      - exists tb. split; assumption.
+      - inversion Hin; subst. exfalso. eapply new_table_no_cells. exact Hc. }
+    assert (Hrow : forall t2 r, InRow (dt ++ [(t, new_table cols)]) t2 r <-> InRow dt t2 r).
+    { intros t2 r. split.
+      - intros [tb [Hin Hr]]. apply in_app_or in Hin. destruct Hin as [Hin|[Hin|[]]].
+        + exists tb. split; assumption.
+        + inversion Hin; subst. cbn in Hr. contradiction.
+      - intros [tb [Hin Hr]]. exists tb. split; [apply in_or_app; left; exact Hin|exact Hr]. }
+    constructor.
+    - rewrite Heq. unfold map_cells. rewrite map_app. cbn [map fst snd]. f_equal. f_equal. f_equal.
+      symmetry. apply map_tcells_id. intros c r v Hc. exfalso. eapply new_table_no_cells. exact Hc.
+    - intros t2 c r ba v Hs Hc. rewrite sdelta_add_table in Hs. apply Hcell in Hc. eapply Hlag; eassumption.
+    - intros t2 r Hp Hr. rewrite pa_get_add_table in Hp. apply Hrow in Hr. eapply Hgone; eassumption.
+    - intros t2 c r ba Hd Hdc2 Hs Hr. rewrite sdelta_add_table in Hs. rewrite pa_get_add_table.
+      apply (Hthere t2 c r ba Hd Hdc2 Hs). intro H. apply Hr. apply Hrow. exact H.
+    - destruct Hwf as [Hnd Hwf]. split.
+      + rewrite map_app. cbn. apply NoDup_snoc; [exact Hnd|]. apply (amem_false str_eqb str_eqb_eq). exact Ht.
+      + intros t2 tb Hin. apply in_app_or in Hin. destruct Hin as [Hin|[Hin|[]]]; [apply Hwf; exact Hin|].
+        inversion Hin; subst. split; [exact Hdt|]. intros c co Hc. unfold new_table in Hc. cbn in Hc.
+        apply in_map_iff in Hc. destruct Hc as [[c0 ty] [E Hc]]. cbn in E. inversion E; subst. split.
+        * rewrite forallb_forall in Hdc. specialize (Hdc _ Hc). cbn in Hdc. apply negb_true_iff in Hdc. exact Hdc.
+        * cbn. intros r v [].
+  Qed.
+
+  Lemma inv_deltable : forall dt S de t,
+    Inv dt S de ->
+    Inv (adel str_eqb t dt) (rename_table (Some t) (defunct_name t) S) (adel str_eqb t de).
+  Proof.
+    intros dt S de t HI. destruct HI as [Heq Hlag Hgone Hthere Hwf].
+    set (S' := rename_table (Some t) (defunct_name t) S).
+    assert (A : forall t2 c r, is_defunct t2 = false -> t2 <> t -> sdelta S' t2 c r = sdelta S t2 c r).
+    { intros t2 c r Hd Hne. unfold S'. rewrite sdelta_rename_table. destruct (aget str_eqb t (sm_tables S)); [|reflexivity].
+      assert (E1 : str_eqb (defunct_name t) t2 = false) by (apply str_eqb_neq; intro E; subst; discriminate).
+      assert (E2 : str_eqb t t2 = false) by (apply str_eqb_neq; congruence). rewrite E1, E2. reflexivity. }
+    assert (B : forall t2 r, is_defunct t2 = false -> t2 <> t -> pa_get S' t2 r = pa_get S t2 r).
+    { intros t2 r Hd Hne. unfold S'. rewrite pa_get_rename_table. destruct (aget str_eqb t (sm_tables S)); [|reflexivity].
+      assert (E1 : str_eqb (defunct_name t) t2 = false) by (apply str_eqb_neq; intro E; subst; discriminate).
+      assert (E2 : str_eqb t t2 = false) by (apply str_eqb_neq; congruence). rewrite E1, E2. reflexivity. }
+    assert (D : forall c r, sdelta S' t c r = None).
+    { intros c r. unfold S'. rewrite sdelta_rename_table. destruct (aget str_eqb t (sm_tables S)) eqn:E.
+      - assert (E1 : str_eqb (defunct_name t) t = false) by (apply str_eqb_neq; intro H; symmetry in H; exact (defunct_name_neq _ H)).
+        rewrite E1, str_eqb_refl. reflexivity.
+      - rewrite sdelta_dl, E. reflexivity. }
+    assert (Hcell : forall t2 c r v, InCell (adel str_eqb t dt) t2 c r v -> InCell dt t2 c r v /\ t2 <> t).
+    { intros t2 c r v [tb [Hin Hc]]. apply (adel_In str_eqb str_eqb_eq) in Hin. destruct Hin as [Hin Hne]. cbn in Hne.
+      split; [|exact Hne]. exists tb. split; assumption. }
+    assert (Hrow : forall t2 r, InRow (adel str_eqb t dt) t2 r <-> InRow dt t2 r /\ t2 <> t).
+    { intros t2 r. split.
+      - intros [tb [Hin Hr]]. apply (adel_In str_eqb str_eqb_eq) in Hin. destruct Hin as [Hin Hne]. cbn in Hne.
+        split; [|exact Hne]. exists tb. split; assumption.
+      - intros [[tb [Hin Hr]] Hne]. exists tb. split; [|exact Hr]. apply (adel_In str_eqb str_eqb_eq). split; assumption. }
+    constructor.
+    - rewrite Heq. rewrite map_cells_adel. apply map_cells_ext_in. intros t2 c r v Hc. apply Hcell in Hc.
+      destruct Hc as [Hc Hne]. unfold ov. rewrite A; [reflexivity| |exact Hne]. apply (InCell_names _ _ _ _ _ Hwf Hc).
+    - intros t2 c r ba v Hs Hc. apply Hcell in Hc. destruct Hc as [Hc Hne].
+      rewrite A in Hs; [|apply (InCell_names _ _ _ _ _ Hwf Hc)|exact Hne]. eapply Hlag; eassumption.
+    - intros t2 r Hp Hr. apply Hrow in Hr. destruct Hr as [Hr Hne].
+      assert (Hd : is_defunct t2 = false).
+      { destruct Hr as [tb [Hin _]]. destruct Hwf as [_ Hwf]. apply (Hwf _ _ Hin). }
+      rewrite B in Hp by assumption. eapply Hgone; eassumption.
+    - intros t2 c r ba Hd Hdc Hs Hr. destruct (str_eqb t2 t) eqn:E.
+      + apply str_eqb_eq in E. subst. rewrite D in Hs. discriminate.
+      + apply str_eqb_neq in E. rewrite A in Hs by assumption. rewrite B by assumption.
+        apply (Hthere t2 c r ba Hd Hdc Hs). intro H. apply Hr. apply Hrow. split; assumption.
+    - destruct Hwf as [Hnd Hwf]. split; [apply adel_fst_nodup; exact Hnd|].
+      intros t2 tb Hin. apply (adel_In str_eqb str_eqb_eq) in Hin. apply Hwf. apply Hin.
+  Qed.
+
+  Lemma inv_rentable : forall dt S de t t',
+    Inv dt S de -> t <> t' -> amem str_eqb t' dt = false -> is_defunct t = false -> is_defunct t' = false ->
+    table_clear S t' = true ->
+    Inv (map (ren_tab t t') dt) (rename_table (Some t) t' S) (map (ren_tab t t') de).
+  Proof.
+    intros dt S de t t' HI Hne Ht' Hdt Hdt' Hclear. destruct HI as [Heq Hlag Hgone Hthere Hwf].
+    set (S' := rename_table (Some t) t' S).
+    pose proof (table_clear_none _ _ Hclear) as Hnone.
+    assert (Hnt : forall t2 tb, In (t2, tb) dt -> t2 <> t').
+    { intros t2 tb Hin E. subst. apply (amem_false str_eqb str_eqb_eq) in Ht'. apply Ht'. apply in_map_iff.
+      exists (t', tb). split; [reflexivity|exact Hin]. }
+    assert (N1 : str_eqb t' t = false) by (apply str_eqb_neq; congruence).
+    assert (E1 : forall c r, sdelta S' t' c r = sdelta S t c r).
+    { intros. unfold S'. rewrite sdelta_rename_table. rewrite str_eqb_refl.
+      destruct (aget str_eqb t (sm_tables S)) eqn:E; [reflexivity|]. rewrite !sdelta_dl. rewrite Hnone, E. reflexivity. }
+    assert (E2 : forall t2 c r, t2 <> t -> t2 <> t' -> sdelta S' t2 c r = sdelta S t2 c r).
+    { intros t2 c r H1 H2. unfold S'. rewrite sdelta_rename_table. destruct (aget str_eqb t (sm_tables S)); [|reflexivity].
+      assert (X1 : str_eqb t' t2 = false) by (apply str_eqb_neq; congruence).
+      assert (X2 : str_eqb t t2 = false) by (apply str_eqb_neq; congruence). rewrite X1, X2. reflexivity. }
+    assert (E4 : forall c r, sdelta S' t c r = None).
+    { intros. unfold S'. rewrite sdelta_rename_table. destruct (aget str_eqb t (sm_tables S)) eqn:E.
+      - rewrite N1, str_eqb_refl. reflexivity.
+      - rewrite sdelta_dl, E. reflexivity. }
+    assert (P1 : forall r, pa_get S' t' r = pa_get S t r).
+    { intros. unfold S'. rewrite pa_get_rename_table. rewrite str_eqb_refl.
+      destruct (aget str_eqb t (sm_tables S)) eqn:E; [reflexivity|]. unfold pa_get. rewrite Hnone, E. reflexivity. }
+    assert (P2 : forall t2 r, t2 <> t -> t2 <> t' -> pa_get S' t2 r = pa_get S t2 r).
+    { intros t2 r H1 H2. unfold S'. rewrite pa_get_rename_table. destruct (aget str_eqb t (sm_tables S)); [|reflexivity].
+      assert (X1 : str_eqb t' t2 = false) by (apply str_eqb_neq; congruence).
+      assert (X2 : str_eqb t t2 = false) by (apply str_eqb_neq; congruence). rewrite X1, X2. reflexivity. }
+    assert (Hcell : forall t2 c r v, InCell (map (ren_tab t t') dt) t2 c r v ->
+                      (t2 = t' /\ InCell dt t c r v) \/ (t2 <> t /\ t2 <> t' /\ InCell dt t2 c r v)).
+    { intros t2 c r v [tb [Hin Hc]]. apply In_ren_tab in Hin. destruct Hin as [[E Hin]|[H1 Hin]].
+      - left. split; [exact E|]. exists tb. split; assumption.
+      - right. split; [exact H1|]. split; [eapply Hnt; exact Hin|]. exists tb. split; assumption. }
+    assert (Hrow : forall t2 r, InRow (map (ren_tab t t') dt) t2 r <->
+                      (t2 = t' /\ InRow dt t r) \/ (t2 <> t /\ InRow dt t2 r)).
+    { intros t2 r. split.
+      - intros [tb [Hin Hr]]. apply In_ren_tab in Hin. destruct Hin as [[E Hin]|[H1 Hin]].
+        + left. split; [exact E|]. exists tb. split; assumption.
+        + right. split; [exact H1|]. exists tb. split; assumption.
+      - intros [[E [tb [Hin Hr]]]|[H1 [tb [Hin Hr]]]]; exists tb; (split; [|exact Hr]); apply In_ren_tab.
+        + left. split; assumption.
+        + right. split; assumption. }
+    constructor.
+    - rewrite Heq. unfold map_cells. rewrite !map_map. apply map_ext_in. intros [t2 tb] Hin. unfold ren_tab. cbn [fst snd].
+      destruct (str_eqb t2 t) eqn:E; cbn [fst snd].
+      + apply str_eqb_eq in E. subst t2. f_equal. apply map_tcells_ext. intros c r v _. unfold ov. rewrite E1. reflexivity.
+      + apply str_eqb_neq in E. f_equal. apply map_tcells_ext. intros c r v _. unfold ov. rewrite E2; [reflexivity|exact E|].
+        eapply Hnt. exact Hin.
+    - intros t2 c r ba v Hs Hc. apply Hcell in Hc. destruct Hc as [[E Hc]|[H1 [H2 Hc]]].
+      + subst t2. rewrite E1 in Hs. eapply Hlag; eassumption.
+      + rewrite E2 in Hs by assumption. eapply Hlag; eassumption.
+    - intros t2 r Hp Hr. apply Hrow in Hr. destruct Hr as [[E Hr]|[H1 Hr]].
+      + subst t2. rewrite P1 in Hp. eapply Hgone; eassumption.
+      + assert (H2 : t2 <> t') by (destruct Hr as [tb [Hin _]]; eapply Hnt; exact Hin).
+        rewrite P2 in Hp by assumption. eapply Hgone; eassumption.
+    - intros t2 c r ba Hd Hdc Hs Hr. destruct (str_eqb t2 t') eqn:Et'.
+      + apply str_eqb_eq in Et'. subst t2. rewrite E1 in Hs. rewrite P1. apply (Hthere t c r ba Hdt Hdc Hs).
+        intro H. apply Hr. apply Hrow. left. split; [reflexivity|exact H].
+      + apply str_eqb_neq in Et'. destruct (str_eqb t2 t) eqn:Et.
+        * apply str_eqb_eq in Et. subst t2. rewrite E4 in Hs. discriminate.
+        * apply str_eqb_neq in Et. rewrite E2 in Hs by assumption. rewrite P2 by assumption.
+          apply (Hthere t2 c r ba Hd Hdc Hs). intro H. apply Hr. apply Hrow. right. split; assumption.
+    - destruct Hwf as [Hnd Hwf]. split.
+      + apply ren_tab_nodup; [exact Hnd|]. apply (amem_false str_eqb str_eqb_eq). exact Ht'.
+      + intros t2 tb Hin. apply In_ren_tab in Hin. destruct Hin as [[E Hin]|[H1 Hin]].
+        * subst. split; [exact Hdt'|]. apply (Hwf _ _ Hin).
+        * apply (Hwf _ _ Hin).
+  Qed.
+End TableKinds.
+
+(* ------------------------------------------------------------------------------------------------ *)
+(* EDoc, assembled *)
+
+Lemma has_col_alive : forall d t c, wf_doc d -> has_col t c d = true -> is_defunct t = false /\ is_defunct c = false.
+Proof.
+  intros d t c [Hnd Hwf] H. unfold has_col in H. destruct (aget str_eqb t d) as [tb|] eqn:E; [|discriminate].
+  apply sget_In in E. destruct (Hwf _ _ E) as [H1 H2]. split; [exact H1|].
+  apply (amem_In str_eqb str_eqb_eq) in H. apply in_map_iff in H. destruct H as [[c0 co] [E0 Hc]]. cbn in E0. subst.
+  apply (H2 _ _ Hc).
+Qed.
+
+Lemma amem_alive : forall (d : doc) t, wf_doc d -> amem str_eqb t d = true -> is_defunct t = false.
+Proof.
+  intros d t [_ Hwf] H. apply amem_tab in H. destruct H as [tb Hin]. apply (Hwf _ _ Hin).
+Qed.
+
+Lemma sum_apply_bulk : forall a pre d S, sum_apply a pre d S = sum_apply (bulk_of a) pre d S.
+Proof. intros. unfold sum_apply. rewrite bulk_of_idem. reflexivity. Qed.
+
+Lemma sc1_bulk : forall S a, sc1 S a = sc1 S (bulk_of a).
+Proof. intros. unfold sc1. rewrite bulk_of_idem. reflexivity. Qed.
+
+Section DocStep.
+  Variable td : str -> V.
+
+  Lemma inv_doc_bulk : forall b pre dt S de de',
+    Inv dt S de -> bulk_of b = b -> action_ok b = true -> sc1 S b = true ->
+    eng_bulk td b de = Ok de' ->
+    exists dt', tds_bulk td b dt = Ok dt' /\ Inv dt' (sum_apply b pre de S) de'.
+  Proof.
+    intros b pre dt S de de' HI Hb Hok Hsc H.
+    pose proof HI as [Heq Hlag Hgone Hthere Hwf].
+    assert (Hnd : NoDup (map fst de)) by (rewrite Heq, map_cells_fst; apply Hwf).
+    assert (Ea : forall t, amem str_eqb t de = amem str_eqb t dt) by (intro; rewrite Heq; apply amem_map_cells).
+    assert (Er : forall t, rows_of t de = rows_of t dt) by (intro; rewrite Heq; apply rows_of_map_cells).
+    assert (Eh : forall t c, has_col t c de = has_col t c dt) by (intros; rewrite Heq; apply has_col_map_cells).
+    assert (Hrc : rows_cond b = true).
+    { unfold sc1 in Hsc. rewrite Hb in Hsc. destruct b; try reflexivity; cbn in *; apply andb_true_iff in Hsc; apply Hsc. }
+    pose proof (eng_tds_bulk td b de de' Hnd Hok Hb Hrc H) as Htds.
+    unfold sc1 in Hsc. unfold sum_apply. rewrite Hb in *.
+    destruct b; cbn [bulk_of] in Hb; try discriminate; cbn [tds_bulk] in *.
+    - (* BulkAddRecord *)
+      rewrite Ea in Htds. destruct (amem str_eqb t dt) eqn:Et; [|discriminate]. inversion Htds; subst de'.
+      eexists. split; [reflexivity|]. apply andb_true_iff in Hsc. destruct Hsc as [_ Hsc].
+      apply inv_add_rows; assumption.
+    - (* BulkRemoveRecord *)
+      rewrite Ea in Htds. destruct (amem str_eqb t dt) eqn:Et; [|discriminate]. inversion Htds; subst de'.
+      eexists. split; [reflexivity|]. rewrite Er.
+      replace (match filter (fun r => zmem r (rows_of t dt)) rs with [] => S | _ :: _ => _ end)
+        with (removed_sum t (filter (fun r => zmem r (rows_of t dt)) rs) S)
+        by (unfold removed_sum; destruct (filter (fun r => zmem r (rows_of t dt)) rs); reflexivity).
+      apply inv_remove_rows. exact HI.
+    - (* BulkUpdateRecord *)
+      rewrite Ea, Er in Htds. destruct (amem str_eqb t dt) eqn:Et; [|discriminate].
+      destruct (forallb (fun r => zmem r (rows_of t dt)) rs) eqn:Ef; [|discriminate]. inversion Htds; subst de'.
+      eexists. split; [reflexivity|]. apply inv_update; assumption.
+    - (* ReplaceTableData *)
+      rewrite Ea in Htds. destruct (amem str_eqb t dt) eqn:Et; [|discriminate]. inversion Htds; subst de'.
+      eexists. split; [reflexivity|]. rewrite Er. apply andb_true_iff in Hsc. destruct Hsc as [_ Hsc].
+      apply inv_replace; assumption.
+    - (* AddColumn *)
+      destruct ty as [ty|]; [|discriminate].
+      rewrite Ea in Htds. destruct (amem str_eqb t dt) eqn:Et; [|discriminate]. inversion Htds; subst de'.
+      eexists. split; [reflexivity|]. apply andb_true_iff in Hsc. destruct Hsc as [Hd Hk]. apply negb_true_iff in Hd.
+      apply (inv_addcol td); assumption.
+    - (* RemoveColumn *)
+      rewrite Ea in Htds. destruct (amem str_eqb t dt) eqn:Et; [|discriminate]. inversion Htds; subst de'.
+      eexists. split; [reflexivity|]. apply (inv_delcol dt S de t c pre). exact HI.
+    - (* RenameColumn *)
+      cbn [eng_bulk] in H. destruct (amem str_eqb t de); cbn in H; [|discriminate].
+      destruct (has_col t c de) eqn:Hc; cbn in H; [|discriminate].
+      destruct (has_col t c' de) eqn:Hc'; [discriminate|].
+      assert (Hne : c <> c') by (intro E; subst; congruence).
+      assert (Es : str_eqb c c' = false) by (apply str_eqb_neq; exact Hne).
+      rewrite Es in Htds. inversion Htds; subst de'. rewrite Eh in Hc. rewrite Hc, Es.
+      eexists. split; [reflexivity|]. apply andb_true_iff in Hsc. destruct Hsc as [Hd Hk]. apply negb_true_iff in Hd.
+      apply (inv_rencol dt S de t c c'); try assumption. apply (has_col_alive dt t c Hwf Hc).
+    - (* ModifyColumn *)
+      rewrite Eh in Htds. destruct (has_col t c dt) eqn:Hc; [|discriminate]. inversion Htds; subst de'.
+      eexists. split; [reflexivity|]. apply inv_modcol. exact HI.
+    - (* AddTable *)
+      cbn [eng_bulk] in H. destruct (amem str_eqb t de) eqn:Et; [discriminate|]. inversion H; subst de'.
+      rewrite Ea in Et. eexists. split; [reflexivity|].
+      rewrite (adel_notin str_eqb str_eqb_eq) by (apply (amem_false str_eqb str_eqb_eq); exact Et).
+      apply andb_true_iff in Hsc. destruct Hsc as [Hsc Hcols]. apply andb_true_iff in Hsc. destruct Hsc as [Hd _].
+      apply negb_true_iff in Hd. apply inv_addtable; assumption.
+    - (* RemoveTable *)
+      rewrite Ea in Htds. destruct (amem str_eqb t dt) eqn:Et; [|discriminate]. inversion Htds; subst de'.
+      eexists. split; [reflexivity|]. apply inv_deltable. exact HI.
+    - (* RenameTable *)
+      cbn [eng_bulk] in H. destruct (amem str_eqb t de) eqn:Et; cbn in H; [|discriminate].
+      destruct (amem str_eqb t' de) eqn:Et'; [discriminate|]. inversion H; subst de'.
+      rewrite Ea in Et, Et'. rewrite Et.
+      assert (Hne : t <> t') by (intro E; subst; congruence).
+      assert (Es : str_eqb t t' = false) by (apply str_eqb_neq; exact Hne). rewrite Es.
+      eexists. split; [reflexivity|]. unfold rename_key.
+      rewrite (adel_notin str_eqb str_eqb_eq) by (apply (amem_false str_eqb str_eqb_eq); exact Et').
+      apply andb_true_iff in Hsc. destruct Hsc as [Hd Hk]. apply negb_true_iff in Hd.
+      apply (inv_rentable dt S de t t'); try assumption. apply (amem_alive dt t Hwf Et).
+  Qed.
+
+  Lemma inv_doc : forall a pre dt S de de',
+    Inv dt S de -> sc1 S a = true -> eng_apply td a de = Ok de' ->
+    exists dt', tds_apply td a dt = Ok dt' /\ Inv dt' (sum_apply a pre de S) de'.
+  Proof.
+    intros a pre dt S de de' HI Hsc H. unfold eng_apply in H. unfold tds_apply.
+    destruct (action_ok a) eqn:Hok; [|discriminate]. rewrite sum_apply_bulk.
+    apply inv_doc_bulk; try assumption.
+    - apply bulk_of_idem.
+    - rewrite action_ok_bulk. exact Hok.
+    - rewrite <- sc1_bulk. exact Hsc.
+  Qed.
+End DocStep.
+
+(* ------------------------------------------------------------------------------------------------ *)
+(* the state-level invariant and the main theorem *)
+
+Lemma sdelta_pop_column : forall S t c t2 c2 r2,
+  sdelta (snd (pop_column S t c)) t2 c2 r2 = if str_eqb t t2 && str_eqb c c2 then None else sdelta S t2 c2 r2.
+Proof.
+  intros. unfold pop_column.
+  destruct (aget str_eqb t (sm_tables S)) as [tdl|] eqn:Et.
+  - destruct (aget str_eqb c (td_deltas tdl)) as [dl|] eqn:Ec; cbn [snd].
+    + rewrite sdelta_set_table. cbn [td_deltas]. destruct (str_eqb t t2) eqn:E1; cbn [andb]; [|reflexivity].
+      apply str_eqb_eq in E1. subst t2. unfold dl_get. destruct (str_eqb c c2) eqn:E2.
+      * apply str_eqb_eq in E2. subst c2. rewrite (aget_adel_same str_eqb). reflexivity.
+      * rewrite (aget_adel_other str_eqb str_eqb_eq); [|apply str_eqb_neq in E2; congruence].
+        rewrite sdelta_dl, Et. reflexivity.
+    + destruct (str_eqb t t2 && str_eqb c c2) eqn:E; [|reflexivity].
+      apply andb_true_iff in E. destruct E as [E1 E2]. apply str_eqb_eq in E1. apply str_eqb_eq in E2. subst.
+      rewrite sdelta_dl, Et. unfold dl_get. rewrite Ec. reflexivity.
+  - cbn [snd]. destruct (str_eqb t t2 && str_eqb c c2) eqn:E; [|reflexivity].
+    apply andb_true_iff in E. destruct E as [E1 _]. apply str_eqb_eq in E1. subst. rewrite sdelta_dl, Et. reflexivity.
+Qed.
+
+Lemma sdelta_sorted_keys : forall S t c r ba, sdelta S t c r = Some ba -> In (t, c) (sorted_keys S).
+Proof.
+  intros S t c r ba H. rewrite sdelta_dl in H. destruct (aget str_eqb t (sm_tables S)) as [tdl|] eqn:Et; [|discriminate].
+  unfold dl_get in H. destruct (aget str_eqb c (td_deltas tdl)) as [dl|] eqn:Ec; [|discriminate].
+  unfold sorted_keys. apply in_flat_map. exists t. split.
+  - apply sort_by_In. apply in_map_iff. exists (t, tdl). split; [reflexivity|]. apply sget_In. exact Et.
+  - apply in_map_iff. exists c. split; [reflexivity|]. apply sort_by_In. unfold for_table. rewrite Et.
+    apply in_map_iff. exists (c, dl). split; [reflexivity|]. apply sget_In. exact Ec.
+Qed.
+
+Lemma inv_drop_sum : forall dt S de, Inv dt S de -> (forall t c r, sdelta S t c r = None) -> Inv dt sum_empty de.
+Proof.
+  intros dt S de [Heq Hlag Hgone Hthere Hwf] Hnone. constructor.
+  - rewrite Heq. apply map_cells_ext_in. intros t c r v _. unfold ov. rewrite Hnone. reflexivity.
+  - intros t c r ba v H. discriminate.
+  - intros t r H. discriminate.
+  - intros t c r ba _ _ H. discriminate.
+  - exact Hwf.
+Qed.
+
+Section Main.
+  Variable td : str -> V.
+
+  Definition SInv (d0 : doc) (s : st) : Prop :=
+    exists dt, tds_apply_all td (s_stored s) d0 = Ok dt /\ Inv dt (s_sum s) (s_doc s).
+
+  Lemma sum_flush_col : forall t c s, s_sum (flush_col t c s) = snd (pop_column (s_sum s) t c).
+  Proof. intros. unfold flush_col, push_flush. destruct (fst (pop_column (s_sum s) t c)); reflexivity. Qed.
+
+  Lemma doc_flush_col : forall t c s, s_doc (flush_col t c s) = s_doc s.
+  Proof. intros. unfold flush_col, push_flush. destruct (fst (pop_column (s_sum s) t c)); reflexivity. Qed.
+
+  Lemma sinv_flush_col : forall d0 t c s, SInv d0 s -> SInv d0 (flush_col t c s).
+  Proof.
+    intros d0 t c s [dt [Hst HI]]. unfold flush_col.
+    destruct (pop_column (s_sum s) t c) as [oa S'] eqn:Hpop. cbn [fst snd].
+    pose proof (inv_pop_column td dt (s_sum s) (s_doc s) t c oa S' HI Hpop) as H.
+    destruct oa as [act|]; cbn [push_flush].
+    - destruct H as [dt' [Ha HI']]. exists dt'. cbn [s_stored s_sum s_doc]. split; [|exact HI'].
+      rewrite tds_apply_all_app. rewrite Hst. cbn. rewrite Ha. reflexivity.
+    - exists dt. cbn [s_stored s_sum s_doc]. split; assumption.
+  Qed.
+
+  Lemma sinv_flush_fold : forall d0 keys s,
+    SInv d0 s -> SInv d0 (fold_left (fun s1 k => flush_col (fst k) (snd k) s1) keys s).
+  Proof.
+    intros d0 keys. induction keys as [|k keys IH]; intros s H; cbn [fold_left]; [exact H|].
+    apply IH. apply sinv_flush_col. exact H.
+  Qed.
+
+  Lemma fold_flush_mono : forall keys s t c r ba,
+    sdelta (s_sum (fold_left (fun s1 k => flush_col (fst k) (snd k) s1) keys s)) t c r = Some ba ->
+    sdelta (s_sum s) t c r = Some ba.
+  Proof.
+    induction keys as [|k keys IH]; intros s t c r ba H; cbn [fold_left] in H; [exact H|].
+    apply IH in H. rewrite sum_flush_col in H. rewrite sdelta_pop_column in H.
+    destruct (str_eqb (fst k) t && str_eqb (snd k) c); [discriminate|exact H].
+  Qed.
+
+  Lemma fold_flush_none : forall keys s t c r,
+    In (t, c) keys -> sdelta (s_sum (fold_left (fun s1 k => flush_col (fst k) (snd k) s1) keys s)) t c r = None.
+  Proof.
+    induction keys as [|k keys IH]; intros s t c r Hin; [contradiction|]. cbn [fold_left].
+    destruct Hin as [E|Hin]; [|apply IH; exact Hin]. subst k. cbn [fst snd].
+    destruct (sdelta (s_sum (fold_left _ keys (flush_col t c s))) t c r) as [ba|] eqn:E; [|reflexivity].
+    apply fold_flush_mono in E. rewrite sum_flush_col in E. rewrite sdelta_pop_column in E.
+    rewrite !str_eqb_refl in E. discriminate.
+  Qed.
+
+  Lemma sinv_flush_all : forall d0 s, SInv d0 s -> SInv d0 (flush_all s).
+  Proof.
+    intros d0 s H. unfold flush_all.
+    set (s' := fold_left (fun s1 k => flush_col (fst k) (snd k) s1) (sorted_keys (s_sum s)) s).
+    destruct (sinv_flush_fold d0 (sorted_keys (s_sum s)) s H) as [dt [Hst HI]]. fold s' in Hst, HI.
+    exists dt. cbn [s_stored s_sum s_doc]. split; [exact Hst|].
+    apply (inv_drop_sum dt (s_sum s')); [exact HI|].
+    intros t c r. destruct (sdelta (s_sum s') t c r) as [ba|] eqn:E; [|reflexivity].
+    pose proof E as E0. apply fold_flush_mono in E0. apply sdelta_sorted_keys in E0.
+    unfold s' in E. rewrite (fold_flush_none _ _ _ _ _ E0) in E. discriminate.
+  Qed.
+
+  Lemma sinv_step : forall d0 e s s',
+    SInv d0 s -> wf_event_b s e = true -> step td e s = Ok s' -> SInv d0 s'.
+  Proof.
+    intros d0 e s s' HS Hwf Hstep. destruct e; cbn [wf_event_b] in Hwf; try discriminate; cbn [step] in Hstep.
+    - (* EDoc *)
+      destruct (eng_apply td a (s_doc s)) as [d'|] eqn:Ea; [|discriminate]. inversion Hstep; subst s'. clear Hstep.
+      destruct HS as [dt [Hst HI]].
+      destruct (inv_doc td a pre dt (s_sum s) (s_doc s) d' HI Hwf Ea) as [dt' [Ha HI']].
+      exists dt'. cbn [s_stored s_sum s_doc push]. split; [|exact HI'].
+      rewrite tds_apply_all_app. rewrite Hst. cbn. rewrite Ha. reflexivity.
+    - (* ECalc *)
+      inversion Hstep; subst s'. destruct HS as [dt [Hst HI]]. exists dt. cbn [s_stored s_sum s_doc].
+      split; [exact Hst|]. apply inv_calc; assumption.
+    - inversion Hstep; subst s'. apply sinv_flush_col. exact HS.
+    - inversion Hstep; subst s'. apply sinv_flush_all. exact HS.
+    - destruct (prune_actions (s_calc s) t c); [|discriminate]. inversion Hstep; subst s'. exact HS.
+  Qed.
+
+  Lemma sinv_run : forall d0 es s s',
+    SInv d0 s -> wf_run_b td s es = true -> run td s es = Ok s' -> SInv d0 s'.
+  Proof.
+    intros d0 es. induction es as [|e es IH]; intros s s' HS Hwf Hrun; cbn in *.
+    - inversion Hrun; subst. exact HS.
+    - apply andb_true_iff in Hwf. destruct Hwf as [Hwe Hwr].
+      destruct (step td e s) as [s1|] eqn:Es; [|discriminate].
+      apply (IH s1 s'); [|exact Hwr|exact Hrun]. eapply sinv_step; eassumption.
+  Qed.
+
+  Lemma run_app : forall es1 es2 s,
+    run td s (es1 ++ es2) = match run td s es1 with Ok s1 => run td s1 es2 | Err e => Err e end.
+  Proof.
+    induction es1 as [|e es1 IH]; intros es2 s; cbn; [reflexivity|].
+    destruct (step td e s); [apply IH|reflexivity].
+  Qed.
+
+  Lemma sinv_init : forall d, wf_doc d -> SInv d (init_st d).
+  Proof. intros d H. exists d. split; [reflexivity|]. apply inv_init. exact H. Qed.
+
+  (* C02 for one bundle *)
+  Theorem stored_is_delta : forall d es d' o,
+    wf_doc d -> wf_events_b td d es = true -> run_bundle td d es = Ok (d', o) ->
+    tds_apply_all td (o_stored o) d = Ok d' /\ wf_doc d'.
+  Proof.
+    intros d es d' o Hwf Hev Hrun. unfold run_bundle in Hrun. unfold wf_events_b in Hev.
+    destruct (run td (init_st d) (es ++ [EFlushAll])) as [s|] eqn:Er; [|discriminate]. inversion Hrun; subst. clear Hrun.
+    pose proof (sinv_run d _ _ _ (sinv_init d Hwf) Hev Er) as [dt [Hst HI]].
+    assert (Hsum : s_sum s = sum_empty).
+    { rewrite run_app in Er. destruct (run td (init_st d) es) as [s1|]; [|discriminate]. cbn in Er. inversion Er. reflexivity. }
+    rewrite Hsum in HI. destruct HI as [Heq _ _ _ Hwf'].
+    assert (E : s_doc s = dt).
+    { rewrite Heq. apply map_cells_id. intros. reflexivity. }
+    cbn [o_stored]. rewrite E. split; assumption.
+  Qed.
+
+  (* ... and for whole histories *)
+  Theorem history_is_delta : forall bs d d' os,
+    wf_doc d -> wf_history_b td d bs = true -> run_history td d bs = Ok (d', os) ->
+    tds_apply_all td (flat_map o_stored os) d = Ok d' /\ wf_doc d'.
+  Proof.
+    induction bs as [|es bs IH]; intros d d' os Hwf Hh Hrun; cbn in *.
+    - inversion Hrun; subst. split; [reflexivity|exact Hwf].
+    - apply andb_true_iff in Hh. destruct Hh as [Hev Hh].
+      destruct (run_bundle td d es) as [[d1 o]|] eqn:Eb; [|discriminate].
+      destruct (run_history td d1 bs) as [[d2 os']|] eqn:Eh; [|discriminate]. inversion Hrun; subst. clear Hrun.
+      destruct (stored_is_delta d es d1 o Hwf Hev Eb) as [H1 Hwf1].
+      destruct (IH d1 d' os' Hwf1 Hh Eh) as [H2 Hwf2]. split; [|exact Hwf2].
+      cbn [flat_map]. rewrite tds_apply_all_app. rewrite H1. exact H2.
+  Qed.
+End Main.
+
+(* ------------------------------------------------------------------------------------------------ *)
+(* C31: stored and direct stay parallel; what flushes and indirect contexts append *)
+
+Definition parallel (s : st) : Prop := length (s_stored s) = length (s_direct s).
+
+Lemma flush_col_appends : forall t c s,
+  exists acts, s_stored (flush_col t c s) = s_stored s ++ acts /\
+               s_direct (flush_col t c s) = s_direct s ++ repeat false (length acts) /\
+               s_calc (flush_col t c s) = s_calc s.
+Proof.
+  intros. unfold flush_col, push_flush. destruct (fst (pop_column (s_sum s) t c)) as [a|]; cbn.
+  - exists [a]. repeat split; reflexivity.
+  - exists []. rewrite !app_nil_r. repeat split; reflexivity.
+Qed.
+
+Lemma flush_fold_appends : forall keys s,
+  exists acts, s_stored (fold_left (fun s1 k => flush_col (fst k) (snd k) s1) keys s) = s_stored s ++ acts /\
+               s_direct (fold_left (fun s1 k => flush_col (fst k) (snd k) s1) keys s) = s_direct s ++ repeat false (length acts) /\
+               s_calc (fold_left (fun s1 k => flush_col (fst k) (snd k) s1) keys s) = s_calc s.
+Proof.
+  induction keys as [|k keys IH]; intros s; cbn [fold_left].
+  - exists []. rewrite !app_nil_r. repeat split; reflexivity.
+  - destruct (IH (flush_col (fst k) (snd k) s)) as [acts2 [H1 [H2 H3]]].
+    destruct (flush_col_appends (fst k) (snd k) s) as [acts1 [G1 [G2 G3]]].
+    exists (acts1 ++ acts2). rewrite H1, H2, H3, G1, G2, G3. rewrite <- !app_assoc. rewrite app_length. rewrite repeat_app.
+    repeat split; reflexivity.
+Qed.
+
+Lemma flush_all_appends : forall s,
+  exists acts, s_stored (flush_all s) = s_stored s ++ acts /\
+               s_direct (flush_all s) = s_direct s ++ repeat false (length acts).
+Proof.
+  intros s. unfold flush_all. destruct (flush_fold_appends (sorted_keys (s_sum s)) s) as [acts [H1 [H2 _]]].
+  exists acts. cbn [s_stored s_direct]. split; assumption.
+Qed.
+
+Section C31.
+  Variable td : str -> V.
+
+  (* every step acts on (stored, direct) as one of the four list operations *)
+  Lemma step_log : forall e s s',
+    step td e s = Ok s' ->
+    (s_stored s', s_direct s') = (s_stored s, s_direct s) \/
+    exists le, lstep le (s_stored s, s_direct s) = (s_stored s', s_direct s') /\
+      match e with
+      | EDoc a lvl _ | EDocFail a lvl => le = LAppend a lvl
+      | ECreate a => le = LCreate a
+      | EFlushCol _ _ | EFlushAll => exists acts, le = LFlush acts
+      | ERollback n => le = LTrim n
+      | _ => False
+      end.
+  Proof.
+    intros e s s' H. destruct e; cbn [step] in H.
+    - destruct (eng_apply td a (s_doc s)); [|discriminate]. inversion H; subst. right. exists (LAppend a lvl). split; reflexivity.
+    - inversion H; subst. right. exists (LAppend a lvl). split; reflexivity.
+    - inversion H; subst. right. exists (LCreate a). split; reflexivity.
+    - inversion H; subst. left. reflexivity.
+    - inversion H; subst. right. destruct (flush_col_appends t c s) as [acts [H1 [H2 _]]].
+      exists (LFlush acts). cbn [lstep fst snd]. rewrite H1, H2. split; [reflexivity|]. exists acts. reflexivity.
+    - inversion H; subst. right. destruct (flush_all_appends s) as [acts [H1 H2]].
+      exists (LFlush acts). cbn [lstep fst snd]. rewrite H1, H2. split; [reflexivity|]. exists acts. reflexivity.
+    - destruct (prune_actions (s_calc s) t c); [|discriminate]. inversion H; subst. left. reflexivity.
+    - inversion H; subst. right. exists (LTrim n). split; reflexivity.
+  Qed.
+
+  Lemma lstep_parallel : forall le p, length (fst p) = length (snd p) -> length (fst (lstep le p)) = length (snd (lstep le p)).
+  Proof.
+    intros le [st di] H. cbn [fst snd] in H. destruct le; cbn [lstep fst snd].
+    - rewrite !app_length. cbn. lia.
+    - rewrite !app_length. cbn. lia.
+    - rewrite !app_length, repeat_length. lia.
+    - rewrite !firstn_length. lia.
+  Qed.
+
+  Lemma lrun_parallel : forall es p, length (fst p) = length (snd p) -> length (fst (lrun es p)) = length (snd (lrun es p)).
+  Proof.
+    induction es as [|e es IH]; intros p H; cbn; [exact H|]. apply IH. apply lstep_parallel. exact H.
+  Qed.
+
+  Lemma step_parallel : forall e s s', parallel s -> step td e s = Ok s' -> parallel s'.
+  Proof.
+    intros e s s' Hp H. unfold parallel in *. apply step_log in H. destruct H as [H|[le [H _]]].
+    - inversion H. congruence.
+    - pose proof (lstep_parallel le (s_stored s, s_direct s) Hp) as Hl. rewrite H in Hl. exact Hl.
+  Qed.
+
+  Lemma run_parallel : forall es s s', parallel s -> run td s es = Ok s' -> parallel s'.
+  Proof.
+    induction es as [|e es IH]; intros s s' Hp H; cbn in H.
+    - inversion H; subst. exact Hp.
+    - destruct (step td e s) as [s1|] eqn:E; [|discriminate]. apply (IH s1); [|exact H]. eapply step_parallel; eassumption.
+  Qed.
+
+  (* at every point of every event sequence, also after flushes and rollback trimming *)
+  Theorem direct_parallel : forall d es1 es2 s,
+    run td (init_st d) (es1 ++ es2) = Ok s ->
+    exists s1, run td (init_st d) es1 = Ok s1 /\ parallel s1 /\ parallel s.
+  Proof.
+    intros d es1 es2 s H. rewrite run_app in H. destruct (run td (init_st d) es1) as [s1|] eqn:E; [|discriminate].
+    exists s1. split; [reflexivity|]. assert (Hp : parallel s1) by (eapply run_parallel; [|exact E]; reflexivity).
+    split; [exact Hp|]. eapply run_parallel; eassumption.
+  Qed.
+
+  Theorem calc_flush_nondirect : forall e s s',
+    (e = EFlushAll \/ exists t c, e = EFlushCol t c) -> step td e s = Ok s' ->
+    exists acts, s_stored s' = s_stored s ++ acts /\ s_direct s' = s_direct s ++ repeat false (length acts).
+  Proof.
+    intros e s s' He H. destruct He as [He|[t [c He]]]; subst e; cbn [step] in H; inversion H; subst.
+    - apply flush_all_appends.
+    - destruct (flush_col_appends t c s) as [acts [H1 [H2 _]]]. exists acts. split; assumption.
+  Qed.
+
+  Theorem doc_event_flag : forall a lvl pre s s',
+    step td (EDoc a lvl pre) s = Ok s' ->
+    s_stored s' = s_stored s ++ [a] /\ s_direct s' = s_direct s ++ [lvl =? 0].
+  Proof.
+    intros a lvl pre s s' H. cbn [step] in H. destruct (eng_apply td a (s_doc s)); [|discriminate].
+    inversion H; subst. split; reflexivity.
+  Qed.
+
+  Theorem indirect_context_nondirect : forall a lvl pre s s',
+    0 < lvl -> step td (EDoc a lvl pre) s = Ok s' ->
+    s_stored s' = s_stored s ++ [a] /\ s_direct s' = s_direct s ++ [false].
+  Proof.
+    intros a lvl pre s s' Hl H. apply doc_event_flag in H. destruct H as [H1 H2]. split; [exact H1|].
+    rewrite H2. replace (lvl =? 0) with false; [reflexivity|]. symmetry. apply Z.eqb_neq. lia.
+  Qed.
+End C31.
